@@ -1,10 +1,354 @@
 (* LfudaFacts.v — proofs about the lfu / lfuda model (Lfuda.v): the ModelOK instances
-   (Spec.v), use counts and LFU victims (C11), dynamic aging (C14), no-effect calls (C19). *)
+   (Spec.v), use counts and LFU victims (C11), dynamic aging (C14), no-effect calls (C19).
+
+   Layout: generic list / assoc / multimap helpers; the invariants; the aging loop and
+   lfuda_dyn_age_exact (C14); effects of the primitives; insert case analysis; the
+   per-field lemmas and the two ModelOK instances; then the C14 / C11 / C19 theorems. *)
 Require Import Capp.Base Capp.Spec Capp.Lfuda.
 From Coq Require Import Sorted.
 
 Section LfFacts.
   Context {K V : Type} `{EqDec K}.
+
+  Lemma eqb_rfl : forall k : K, eqb k k = true.
+  Proof. intros k; destruct (eqb_spec k k); congruence. Qed.
+  Lemma eqb_neq : forall a b : K, a <> b -> eqb a b = false.
+  Proof. intros a b N; destruct (eqb_spec a b); congruence. Qed.
+
+  (* ---------- generic list facts ---------- *)
+  Lemma ssorted_app : forall {B} (R : B -> B -> Prop) (l1 l2 : list B),
+      StronglySorted R l1 -> StronglySorted R l2 ->
+      (forall x y, In x l1 -> In y l2 -> R x y) -> StronglySorted R (l1 ++ l2).
+  Proof.
+    intros B R l1 l2 S1 S2 HR. induction l1 as [|a l1 IH]; simpl; auto.
+    inversion S1 as [|a' l' Sl Fa]; subst. constructor.
+    - apply IH; auto. intros x y Hx Hy; apply HR; simpl; auto.
+    - apply Forall_app; split; auto.
+      apply Forall_forall; intros y Hy; apply HR; simpl; auto.
+  Qed.
+
+  Lemma ssorted_app_r : forall {B} (R : B -> B -> Prop) (l1 l2 : list B),
+      StronglySorted R (l1 ++ l2) -> StronglySorted R l2.
+  Proof.
+    intros B R l1 l2. induction l1 as [|a l1 IH]; simpl; auto.
+    intros S; inversion S; subst; auto.
+  Qed.
+
+  Lemma ssorted_const : forall (c : Z) (l : list Z),
+      Forall (fun x => x = c) l -> StronglySorted Z.le l.
+  Proof.
+    intros c l F. induction F as [|x l Hx F IH]; constructor; auto.
+    subst x. eapply Forall_impl; [|exact F]. simpl; intros; lia.
+  Qed.
+
+  Section AssocFacts.
+    Context {A : Type}.
+    Implicit Types (l : list (K * A)).
+
+    Lemma assoc_app : forall k l1 l2,
+        assoc k (l1 ++ l2) = match assoc k l1 with Some x => Some x | None => assoc k l2 end.
+    Proof.
+      intros k l1 l2; induction l1 as [|[k' x] l1 IH]; simpl; auto.
+      destruct (eqb k k'); auto.
+    Qed.
+
+    Lemma assoc_None_iff : forall k l, assoc k l = None <-> ~ In k (keys l).
+    Proof.
+      intros k l; unfold keys; induction l as [|[k' x] l IH]; simpl.
+      - tauto.
+      - destruct (eqb_spec k k') as [E|E].
+        + split; [discriminate|]. intros N; exfalso; apply N; left; auto.
+        + rewrite IH. split.
+          * intros N [E'|I]; [apply E; auto|auto].
+          * intros N I; apply N; right; auto.
+    Qed.
+
+    Lemma assoc_Some_keys : forall k l, assoc k l <> None <-> In k (keys l).
+    Proof.
+      intros k l. rewrite assoc_None_iff. split.
+      - intros N. destruct (in_dec (fun a b => match eqb_spec a b with ReflectT _ e => left e | ReflectF _ n => right n end) k (keys l)); tauto.
+      - tauto.
+    Qed.
+
+    Lemma assoc_In : forall k x l, assoc k l = Some x -> In (k, x) l.
+    Proof.
+      intros k x l; induction l as [|[k' y] l IH]; simpl; [discriminate|].
+      destruct (eqb_spec k k') as [E|E].
+      - intros E'; inversion E'; subst; auto.
+      - auto.
+    Qed.
+
+    Lemma In_assoc : forall k x l, NoDup (keys l) -> In (k, x) l -> assoc k l = Some x.
+    Proof.
+      intros k x l; unfold keys; induction l as [|[k' y] l IH]; simpl; [tauto|].
+      intros ND [E|I].
+      - inversion E; subst. rewrite eqb_rfl; auto.
+      - inversion ND as [|a b Nin ND']; subst.
+        destruct (eqb_spec k k') as [E|E].
+        + subst. exfalso; apply Nin. apply in_map_iff. exists (k', x); auto.
+        + auto.
+    Qed.
+
+    Lemma In_remk : forall k x l, In x (remk k l) <-> In x l /\ fst x <> k.
+    Proof.
+      intros k x l; induction l as [|[k' y] l IH]; simpl; [tauto|].
+      destruct (eqb_spec k k') as [E|E]; simpl; rewrite IH.
+      - subst. split; [tauto|]. intros [[E|I] N]; [subst; simpl in N; congruence|auto].
+      - split; [intros [E'|[I N]]; [subst; simpl; split; auto|tauto]|tauto].
+    Qed.
+
+    Lemma keys_remk : forall k k' l, In k' (keys (remk k l)) <-> In k' (keys l) /\ k' <> k.
+    Proof.
+      intros k k' l; unfold keys. rewrite !in_map_iff. split.
+      - intros [x [E I]]. apply In_remk in I. destruct I as [I N]. subst. split; eauto.
+      - intros [[x [E I]] N]. exists x; split; auto. apply In_remk; subst; auto.
+    Qed.
+
+    Lemma assoc_remk_same : forall k l, assoc k (remk k l) = None.
+    Proof. intros; apply assoc_None_iff. rewrite keys_remk. tauto. Qed.
+
+    Lemma assoc_remk_other : forall k k' l, k <> k' -> assoc k (remk k' l) = assoc k l.
+    Proof.
+      intros k k' l N; induction l as [|[k'' y] l IH]; simpl; auto.
+      destruct (eqb_spec k' k'') as [E|E]; simpl.
+      - subst. rewrite (eqb_neq _ _ N). auto.
+      - rewrite IH; auto.
+    Qed.
+
+    Lemma NoDup_remk : forall k l, NoDup (keys l) -> NoDup (keys (remk k l)).
+    Proof.
+      intros k l; induction l as [|[k' y] l IH]; simpl; auto.
+      intros ND; inversion ND as [|a b Nin ND']; subst.
+      destruct (eqb k k'); auto.
+      change (NoDup (k' :: keys (remk k l))). constructor; auto.
+      rewrite keys_remk. tauto.
+    Qed.
+
+    Lemma remk_notin : forall k l, ~ In k (keys l) -> remk k l = l.
+    Proof.
+      intros k l; unfold keys; induction l as [|[k' y] l IH]; simpl; auto.
+      intros N. destruct (eqb_spec k k') as [E|E]; [exfalso; apply N; auto|]. f_equal; auto.
+    Qed.
+
+    Lemma length_remk : forall k l, NoDup (keys l) -> In k (keys l) ->
+        S (length (remk k l)) = length l.
+    Proof.
+      intros k l; unfold keys; induction l as [|[k' y] l IH]; simpl; [tauto|].
+      intros ND I; inversion ND as [|a b Nin ND']; subst.
+      destruct (eqb_spec k k') as [E|E].
+      - subst. rewrite remk_notin; auto.
+      - simpl. f_equal. apply IH; auto. destruct I; congruence.
+    Qed.
+
+    Lemma length_remk_le : forall k l, length (remk k l) <= length l.
+    Proof.
+      intros k l; induction l as [|[k' y] l IH]; simpl; auto.
+      destruct (eqb k k'); simpl; lia.
+    Qed.
+
+    Lemma Forall_remk : forall (P : K * A -> Prop) k l, Forall P l -> Forall P (remk k l).
+    Proof.
+      intros P k l F. apply Forall_forall. intros x I. apply In_remk in I.
+      rewrite Forall_forall in F. apply F; tauto.
+    Qed.
+
+    Lemma ssorted_map_remk : forall {B} (R : B -> B -> Prop) (f : K * A -> B) k l,
+        StronglySorted R (map f l) -> StronglySorted R (map f (remk k l)).
+    Proof.
+      intros B R f k l; induction l as [|[k' y] l IH]; simpl; auto.
+      intros S; inversion S as [|a b Sl Fa]; subst.
+      destruct (eqb k k'); auto. simpl. constructor; auto.
+      rewrite Forall_forall in *. intros z Hz. apply Fa.
+      apply in_map_iff in Hz. destruct Hz as [w [E I]]. apply In_remk in I.
+      apply in_map_iff. exists w; tauto.
+    Qed.
+
+    Lemma keys_app : forall l1 l2, keys (l1 ++ l2) = keys l1 ++ keys l2.
+    Proof. intros; unfold keys; apply map_app. Qed.
+  End AssocFacts.
+
+  (* ---------- the count-ordered multimap ---------- *)
+  Section OrdFacts.
+    Implicit Types (o : list (nat * K)).
+
+    Lemma assoc2_None_iff : forall k o, assoc2 k o = None <-> ~ In k (map snd o).
+    Proof.
+      intros k o; induction o as [|[c k'] o IH]; simpl.
+      - tauto.
+      - destruct (eqb_spec k k') as [E|E].
+        + split; [discriminate|]. intros N; exfalso; apply N; left; auto.
+        + rewrite IH. split.
+          * intros N [E'|I]; [apply E; auto|auto].
+          * intros N I; apply N; right; auto.
+    Qed.
+
+    Lemma assoc2_In : forall k c o, assoc2 k o = Some c -> In (c, k) o.
+    Proof.
+      intros k c o; induction o as [|[c' k'] o IH]; simpl; [discriminate|].
+      destruct (eqb_spec k k') as [E|E].
+      - intros E'; inversion E'; subst; auto.
+      - auto.
+    Qed.
+
+    Lemma In_assoc2 : forall k c o, NoDup (map snd o) -> In (c, k) o -> assoc2 k o = Some c.
+    Proof.
+      intros k c o; induction o as [|[c' k'] o IH]; simpl; [tauto|].
+      intros ND [E|I].
+      - inversion E; subst. rewrite eqb_rfl; auto.
+      - inversion ND as [|a b Nin ND']; subst.
+        destruct (eqb_spec k k') as [E|E].
+        + subst. exfalso; apply Nin. apply in_map_iff. exists (c, k'); auto.
+        + auto.
+    Qed.
+
+    Lemma In_rem2 : forall k x o, In x (rem2 k o) <-> In x o /\ snd x <> k.
+    Proof.
+      intros k x o; induction o as [|[c' k'] o IH]; simpl; [tauto|].
+      destruct (eqb_spec k k') as [E|E]; simpl; rewrite IH.
+      - subst. split; [tauto|]. intros [[E|I] N]; [subst; simpl in N; congruence|auto].
+      - split; [intros [E'|[I N]]; [subst; simpl; split; auto|tauto]|tauto].
+    Qed.
+
+    Lemma keys_rem2 : forall k k' o, In k' (map snd (rem2 k o)) <-> In k' (map snd o) /\ k' <> k.
+    Proof.
+      intros k k' o. rewrite !in_map_iff. split.
+      - intros [x [E I]]. apply In_rem2 in I. destruct I as [I N]. subst. split; eauto.
+      - intros [[x [E I]] N]. exists x; split; auto. apply In_rem2; subst; auto.
+    Qed.
+
+    Lemma assoc2_rem2_same : forall k o, assoc2 k (rem2 k o) = None.
+    Proof. intros; apply assoc2_None_iff. rewrite keys_rem2. tauto. Qed.
+
+    Lemma assoc2_rem2_other : forall k k' o, k <> k' -> assoc2 k (rem2 k' o) = assoc2 k o.
+    Proof.
+      intros k k' o N; induction o as [|[c k''] o IH]; simpl; auto.
+      destruct (eqb_spec k' k'') as [E|E]; simpl.
+      - subst. rewrite (eqb_neq _ _ N). auto.
+      - rewrite IH; auto.
+    Qed.
+
+    Lemma NoDup_rem2 : forall k o, NoDup (map snd o) -> NoDup (map snd (rem2 k o)).
+    Proof.
+      intros k o; induction o as [|[c k'] o IH]; simpl; auto.
+      intros ND; inversion ND as [|a b Nin ND']; subst.
+      destruct (eqb k k'); auto.
+      simpl. constructor; auto.
+      rewrite keys_rem2. tauto.
+    Qed.
+
+    Lemma ssorted_rem2 : forall k o,
+        StronglySorted le (map fst o) -> StronglySorted le (map fst (rem2 k o)).
+    Proof.
+      intros k o; induction o as [|[c k'] o IH]; simpl; auto.
+      intros S; inversion S as [|a b Sl Fa]; subst.
+      destruct (eqb k k'); auto. simpl. constructor; auto.
+      rewrite Forall_forall in *. intros z Hz. apply Fa.
+      apply in_map_iff in Hz. destruct Hz as [w [E I]]. apply In_rem2 in I.
+      apply in_map_iff. exists w; tauto.
+    Qed.
+
+    Lemma In_ord_insert : forall c k x o, In x (ord_insert c k o) <-> x = (c, k) \/ In x o.
+    Proof.
+      intros c k x o; induction o as [|[c' k'] o IH]; simpl.
+      - split; intros [E|F]; auto.
+      - destruct (c' <=? c); simpl; [rewrite IH|]; split; intros Hx; intuition auto.
+    Qed.
+
+    Lemma keys_ord_insert : forall c k k' o,
+        In k' (map snd (ord_insert c k o)) <-> k' = k \/ In k' (map snd o).
+    Proof.
+      intros c k k' o. rewrite !in_map_iff. split.
+      - intros [x [E I]]. apply In_ord_insert in I. destruct I as [I|I].
+        + subst; auto.
+        + right; eauto.
+      - intros [E|[x [E I]]].
+        + exists (c, k); split; auto. apply In_ord_insert; auto.
+        + exists x; split; auto. apply In_ord_insert; auto.
+    Qed.
+
+    Lemma NoDup_ord_insert : forall c k o,
+        NoDup (map snd o) -> ~ In k (map snd o) -> NoDup (map snd (ord_insert c k o)).
+    Proof.
+      intros c k o; induction o as [|[c' k'] o IH]; simpl.
+      - intros; constructor; auto.
+      - intros ND Nin; inversion ND as [|a b Nin' ND']; subst.
+        destruct (c' <=? c); simpl.
+        + constructor; [|apply IH; tauto].
+          rewrite keys_ord_insert. intros [E|I]; [apply Nin; auto|auto].
+        + constructor; auto.
+    Qed.
+
+    Lemma ssorted_ord_insert : forall c k o,
+        StronglySorted le (map fst o) -> StronglySorted le (map fst (ord_insert c k o)).
+    Proof.
+      intros c k o; induction o as [|[c' k'] o IH]; simpl.
+      - intros; constructor; auto.
+      - intros S; inversion S as [|a b Sl Fa]; subst.
+        destruct (Nat.leb_spec c' c) as [L|L]; simpl.
+        + constructor; auto.
+          rewrite Forall_forall in *. intros z Hz.
+          apply in_map_iff in Hz. destruct Hz as [w [E I]]. apply In_ord_insert in I.
+          destruct I as [I|I]; [subst; simpl; auto|].
+          apply Fa. apply in_map_iff; eauto.
+        + constructor; auto. constructor; [lia|].
+          eapply Forall_impl; [|exact Fa]. simpl; intros; lia.
+    Qed.
+
+    Lemma assoc2_ord_insert_same : forall c k o,
+        ~ In k (map snd o) -> assoc2 k (ord_insert c k o) = Some c.
+    Proof.
+      intros c k o; induction o as [|[c' k'] o IH]; simpl.
+      - rewrite eqb_rfl; auto.
+      - intros N. destruct (c' <=? c); simpl.
+        + rewrite eqb_neq; [|intros E; apply N; auto]. apply IH; tauto.
+        + rewrite eqb_rfl; auto.
+    Qed.
+
+    Lemma assoc2_ord_insert_other : forall c k k' o,
+        k' <> k -> assoc2 k' (ord_insert c k o) = assoc2 k' o.
+    Proof.
+      intros c k k' o N; induction o as [|[c' k''] o IH]; simpl.
+      - rewrite eqb_neq; auto.
+      - destruct (c' <=? c); simpl.
+        + rewrite IH; auto.
+        + rewrite (eqb_neq _ _ N); auto.
+    Qed.
+  End OrdFacts.
+
+  Lemma NoDup_app_iff : forall {B} (l1 l2 : list B),
+      NoDup (l1 ++ l2) <-> NoDup l1 /\ NoDup l2 /\ (forall x, In x l1 -> ~ In x l2).
+  Proof.
+    intros B l1 l2; induction l1 as [|a l1 IH]; simpl.
+    - split; [intros; repeat split; auto; constructor | tauto].
+    - split.
+      + intros ND; inversion ND as [|a' l' Nin ND']; subst.
+        apply IH in ND'. destruct ND' as (N1 & N2 & D).
+        split; [constructor; auto; intros I; apply Nin; apply in_or_app; auto|].
+        split; auto. intros x [E|I]; [subst; intros I; apply Nin; apply in_or_app; auto|auto].
+      + intros (N1 & N2 & D). inversion N1 as [|a' l' Nin ND']; subst.
+        constructor.
+        * intros I; apply in_app_or in I; destruct I as [I|I]; [auto|]. apply (D a); auto.
+        * apply IH; repeat split; auto.
+    Qed.
+
+  Lemma NoDup_snoc : forall {B} (l : list B) x, NoDup l -> ~ In x l -> NoDup (l ++ [x]).
+  Proof.
+    intros B l x ND N. apply NoDup_app_iff. split; auto. split.
+    - constructor; [simpl; tauto|constructor].
+    - intros y Hy [E|[]]. subst; auto.
+  Qed.
+
+  Lemma filter_all : forall {B} (f : B -> bool) l, Forall (fun x => f x = true) l -> filter f l = l.
+  Proof.
+    intros B f l F; induction F as [|x l Hx F IH]; simpl; auto. rewrite Hx, IH; auto.
+  Qed.
+  Lemma filter_none : forall {B} (f : B -> bool) l, Forall (fun x => f x = false) l -> filter f l = [].
+  Proof.
+    intros B f l F; induction F as [|x l Hx F IH]; simpl; auto. rewrite Hx; auto.
+  Qed.
+
+  (* ---------- definitions ---------- *)
+  Definition stampof (x : K * (V * Z)) : Z := snd (snd x).
 
   Definition lf_stamp (s : lf K V) (k : K) : option Z :=
     match assoc k (lf_ents s) with Some (_, a) => Some a | None => None end.
@@ -21,9 +365,763 @@ Section LfFacts.
     StronglySorted Z.le (map (fun x => snd (snd x)) (lf_ents s)) /\
     (forall k a, lf_stamp s k = Some a -> (a <= t)%Z).
 
-  (* lfu_cache: same machine, clock frozen at 0 *)
-  Definition lfu_inv (t : Z) (s : lf K V) : Prop := lf_inv 0 s /\ (0 <= t)%Z.
+  (* the last clause as a [Forall] over the age list *)
+  Lemma stamp_of_Forall : forall t (l : list (K * (V * Z))),
+      Forall (fun x => (stampof x <= t)%Z) l ->
+      forall k a, match assoc k l with Some (_, a') => Some a' | None => None end = Some a -> (a <= t)%Z.
+  Proof.
+    intros t l HF k a E. rewrite Forall_forall in HF.
+    destruct (assoc k l) as [[v a']|] eqn:EA; [|discriminate].
+    inversion E; subst. apply assoc_In in EA. apply (HF _ EA).
+  Qed.
+  Lemma Forall_of_stamp : forall t (l : list (K * (V * Z))), NoDup (keys l) ->
+      (forall k a, match assoc k l with Some (_, a') => Some a' | None => None end = Some a -> (a <= t)%Z) ->
+      Forall (fun x => (stampof x <= t)%Z) l.
+  Proof.
+    intros t l ND Hs. apply Forall_forall. intros [k [v a]] I. apply (Hs k a).
+    rewrite (In_assoc _ _ _ ND I). auto.
+  Qed.
 
+  (* lfu_cache: same machine, clock frozen at 0, so every stamp is exactly 0 (needed to
+     know that do_dynamic_age never fires: 0 + ms tick < 0 is false) *)
+  Definition lfu_inv (t : Z) (s : lf K V) : Prop :=
+    lf_inv 0 s /\ (0 <= t)%Z /\ Forall (fun x => (0 <= stampof x)%Z) (lf_ents s).
+
+  Definition cnt (o : list (nat * K)) (k : K) : nat :=
+    match assoc2 k o with Some c => c | None => 0 end.
+  Lemma lf_count_cnt : forall (s : lf K V) k, lf_count s k = cnt (lf_ord s) k.
+  Proof. reflexivity. Qed.
+
+  Lemma lf_with_id : forall s : lf K V, lf_with s (lf_ord s) (lf_ents s) = s.
+  Proof. destruct s; reflexivity. Qed.
+
+  Lemma lf_get_keys : forall (s : lf K V) k, lf_get s k <> None <-> In k (keys (lf_ents s)).
+  Proof.
+    intros s k. rewrite <- assoc_Some_keys. unfold lf_get.
+    destruct (assoc k (lf_ents s)) as [[v a]|]; split; congruence.
+  Qed.
+  Lemma lf_get_None : forall (s : lf K V) k, lf_get s k = None <-> assoc k (lf_ents s) = None.
+  Proof.
+    intros s k. unfold lf_get.
+    destruct (assoc k (lf_ents s)) as [[v a]|]; split; congruence.
+  Qed.
+
+  Lemma lf_inv_mono : forall t t' (s : lf K V), lf_inv t s -> (t <= t')%Z -> lf_inv t' s.
+  Proof.
+    intros t t' s (Hc & Ht & Hnd & Hlen & Hndo & Hk & Hso & Hss & Hle) L.
+    repeat (split; [assumption|]).
+    intros k a E. specialize (Hle k a E). lia.
+  Qed.
+
+  Lemma lf_inv_access : forall t (s : lf K V) k v now,
+      lf_inv t s -> (t <= now)%Z -> In k (keys (lf_ents s)) -> lf_inv now (lf_access s k v now).
+  Proof.
+    intros t s k v now (Hc & Ht & Hnd & Hlen & Hndo & Hk & Hso & Hss & Hle) Hnow Hin.
+    apply Forall_of_stamp in Hle; [|exact Hnd].
+    assert (ND' : NoDup (keys (remk k (lf_ents s) ++ [(k, (v, now))]))).
+    { rewrite keys_app. change (keys [(k, (v, now))]) with [k].
+      apply NoDup_snoc; [apply NoDup_remk; auto|]. rewrite keys_remk; tauto. }
+    unfold lf_inv, lf_access; simpl.
+    split; [exact Hc|]. split; [exact Ht|].
+    split; [exact ND'|].
+    split.
+    { rewrite app_length; simpl. pose proof (length_remk k (lf_ents s) Hnd Hin). lia. }
+    split.
+    { apply NoDup_ord_insert; [apply NoDup_rem2; auto|]. rewrite keys_rem2; tauto. }
+    split.
+    { intros k'. rewrite keys_app, in_app_iff, keys_remk, keys_ord_insert, keys_rem2.
+      change (keys [(k, (v, now))]) with [k]. simpl.
+      rewrite <- Hk. destruct (eqb_spec k' k) as [E|E]; [subst; tauto|].
+      split.
+      - intros [[I N]|[E'|[]]]; [right; auto|congruence].
+      - intros [E'|[I N]]; [congruence|left; auto]. }
+    split.
+    { apply ssorted_ord_insert, ssorted_rem2; auto. }
+    split.
+    { rewrite map_app. apply ssorted_app.
+      - apply ssorted_map_remk; auto.
+      - simpl. constructor; constructor.
+      - intros x y Hx Hy. simpl in Hy. destruct Hy as [Hy|[]]. subst y.
+        apply in_map_iff in Hx. destruct Hx as [w [E I]]. apply In_remk in I.
+        rewrite Forall_forall in Hle. specialize (Hle w (proj1 I)). unfold stampof in *. simpl. lia. }
+    apply (stamp_of_Forall now (remk k (lf_ents s) ++ [(k, (v, now))])).
+    { apply Forall_app; split.
+      - apply Forall_remk. eapply Forall_impl; [|exact Hle]. simpl; intros; lia.
+      - constructor; [|constructor]. unfold stampof; simpl; lia. }
+  Qed.
+
+  Lemma lf_inv_erase_key : forall t (s : lf K V) k, lf_inv t s -> lf_inv t (lf_erase_key s k).
+  Proof.
+    intros t s k (Hc & Ht & Hnd & Hlen & Hndo & Hk & Hso & Hss & Hle).
+    apply Forall_of_stamp in Hle; [|exact Hnd].
+    unfold lf_inv, lf_erase_key; simpl.
+    split; [exact Hc|]. split; [exact Ht|].
+    split; [apply NoDup_remk; auto|].
+    split; [pose proof (length_remk_le k (lf_ents s)); lia|].
+    split; [apply NoDup_rem2; auto|].
+    split; [intros k'; rewrite keys_remk, keys_rem2, Hk; tauto|].
+    split; [apply ssorted_rem2; auto|].
+    split; [apply ssorted_map_remk; auto|].
+    apply (stamp_of_Forall t (remk k (lf_ents s))). apply Forall_remk; auto.
+  Qed.
+
+  Definition lf_add (s : lf K V) (k : K) (v : V) (now : Z) : lf K V :=
+    lf_with s (ord_insert 1 k (lf_ord s)) (lf_ents s ++ [(k, (v, now))]).
+
+  Lemma lf_inv_add : forall t (s : lf K V) k v now,
+      lf_inv t s -> (t <= now)%Z -> ~ In k (keys (lf_ents s)) -> length (lf_ents s) < lf_cap s ->
+      lf_inv now (lf_add s k v now).
+  Proof.
+    intros t s k v now (Hc & Ht & Hnd & Hlen & Hndo & Hk & Hso & Hss & Hle) Hnow Hin Hlt.
+    apply Forall_of_stamp in Hle; [|exact Hnd].
+    unfold lf_inv, lf_add; simpl.
+    split; [exact Hc|]. split; [exact Ht|].
+    split.
+    { rewrite keys_app. change (keys [(k, (v, now))]) with [k].
+      apply NoDup_snoc; auto. }
+    split.
+    { rewrite app_length; simpl. lia. }
+    split.
+    { apply NoDup_ord_insert; auto. rewrite <- Hk; auto. }
+    split.
+    { intros k'. rewrite keys_app, in_app_iff, keys_ord_insert.
+      change (keys [(k, (v, now))]) with [k]. simpl.
+      rewrite <- Hk. intuition auto. }
+    split.
+    { apply ssorted_ord_insert; auto. }
+    split.
+    { rewrite map_app. apply ssorted_app; auto.
+      - simpl. constructor; constructor.
+      - intros x y Hx Hy. simpl in Hy. destruct Hy as [Hy|[]]. subst y.
+        apply in_map_iff in Hx. destruct Hx as [w [E I]].
+        rewrite Forall_forall in Hle. specialize (Hle w I). unfold stampof in *. simpl. lia. }
+    apply (stamp_of_Forall now (lf_ents s ++ [(k, (v, now))])).
+    { apply Forall_app; split.
+      - eapply Forall_impl; [|exact Hle]. simpl; intros; lia.
+      - constructor; [|constructor]. unfold stampof; simpl; lia. }
+  Qed.
+
+  (* ---------- the aging loop ---------- *)
+  Definition restamp (now : Z) (x : K * (V * Z)) : K * (V * Z) := (fst x, (fst (snd x), now)).
+  Definition ageP (now tick : Z) (x : K * (V * Z)) : bool := (stampof x + ms tick <? now)%Z.
+  Definition age_one (rnum rk : nat) (o : list (nat * K)) (k : K) : list (nat * K) :=
+    ord_insert (scale rnum rk (cnt o k)) k (rem2 k o).
+
+  Lemma age_loop_decomp : forall now tick rnum rk ents o moved aged,
+      exists pre rest,
+        ents = pre ++ rest /\ Forall (fun x => ageP now tick x = true) pre /\
+        match rest with [] => True | x :: _ => ageP now tick x = false end /\
+        lf_age_loop now tick rnum rk ents o moved aged =
+        (rest ++ rev (map (restamp now) pre) ++ moved,
+         fold_left (age_one rnum rk) (keys pre) o, aged + length pre).
+  Proof.
+    intros now tick rnum rk ents; induction ents as [|[k [v a]] ents IH]; intros o moved aged.
+    - exists [], []. simpl. rewrite Nat.add_0_r. auto.
+    - simpl. destruct (a + ms tick <? now)%Z eqn:EP.
+      + destruct (IH (ord_insert (scale rnum rk (cnt o k)) k (rem2 k o))
+                     ((k, (v, now)) :: moved) (S aged)) as (pre & rest & E & FP & HR & EL).
+        exists ((k, (v, a)) :: pre), rest. split; [simpl; congruence|].
+        split; [constructor; auto|]. split; [auto|].
+        unfold cnt in EL. rewrite EL. simpl. unfold restamp at 2. simpl.
+        rewrite <- !app_assoc. simpl. f_equal. lia.
+      + exists [], ((k, (v, a)) :: ents). simpl. rewrite Nat.add_0_r. auto.
+  Qed.
+
+  Lemma rest_not_aged : forall now tick (rest : list (K * (V * Z))),
+      StronglySorted Z.le (map stampof rest) ->
+      match rest with [] => True | x :: _ => ageP now tick x = false end ->
+      Forall (fun x => ageP now tick x = false) rest.
+  Proof.
+    intros now tick rest S HR. destruct rest as [|x r]; [constructor|].
+    simpl in S. inversion S as [|a b Sl Fa]; subst.
+    constructor; auto. apply Forall_forall. intros y Hy.
+    rewrite Forall_forall in Fa. specialize (Fa (stampof y) (in_map _ _ _ Hy)).
+    unfold ageP in *. destruct (Z.ltb_spec (stampof x + ms tick) now); [discriminate|].
+    destruct (Z.ltb_spec (stampof y + ms tick) now); auto. lia.
+  Qed.
+
+  Lemma age_one_keys : forall rnum rk o k k',
+      In k' (map snd (age_one rnum rk o k)) <-> k' = k \/ (In k' (map snd o) /\ k' <> k).
+  Proof. intros. unfold age_one. rewrite keys_ord_insert, keys_rem2. tauto. Qed.
+
+  Lemma age_fold_keys : forall rnum rk ks o,
+      Forall (fun k => In k (map snd o)) ks ->
+      forall k, In k (map snd (fold_left (age_one rnum rk) ks o)) <-> In k (map snd o).
+  Proof.
+    intros rnum rk ks; induction ks as [|k0 ks IH]; intros o F k; simpl; [tauto|].
+    inversion F as [|a b I0 F']; subst.
+    assert (EQ : forall k', In k' (map snd (age_one rnum rk o k0)) <-> In k' (map snd o)).
+    { intros k'. rewrite age_one_keys. destruct (eqb_spec k' k0) as [E|E]; [subst; tauto|tauto]. }
+    rewrite IH; [apply EQ|].
+    eapply Forall_impl; [|exact F']. simpl. intros a Ha. apply EQ; auto.
+  Qed.
+
+  Lemma age_fold_nodup : forall rnum rk ks o,
+      NoDup (map snd o) -> NoDup (map snd (fold_left (age_one rnum rk) ks o)).
+  Proof.
+    intros rnum rk ks; induction ks as [|k0 ks IH]; intros o ND; simpl; auto.
+    apply IH. unfold age_one. apply NoDup_ord_insert; [apply NoDup_rem2; auto|].
+    rewrite keys_rem2; tauto.
+  Qed.
+
+  Lemma age_fold_sorted : forall rnum rk ks o,
+      StronglySorted le (map fst o) ->
+      StronglySorted le (map fst (fold_left (age_one rnum rk) ks o)).
+  Proof.
+    intros rnum rk ks; induction ks as [|k0 ks IH]; intros o S; simpl; auto.
+    apply IH. unfold age_one. apply ssorted_ord_insert, ssorted_rem2; auto.
+  Qed.
+
+  Lemma age_fold_notin : forall rnum rk ks o k,
+      ~ In k ks -> assoc2 k (fold_left (age_one rnum rk) ks o) = assoc2 k o.
+  Proof.
+    intros rnum rk ks; induction ks as [|k0 ks IH]; intros o k N; simpl; auto.
+    rewrite IH; [|simpl in N; tauto].
+    assert (k <> k0) by (intros E; apply N; simpl; auto).
+    unfold age_one. rewrite assoc2_ord_insert_other, assoc2_rem2_other; auto.
+  Qed.
+
+  Lemma age_fold_in : forall rnum rk ks o k,
+      NoDup ks -> In k ks ->
+      assoc2 k (fold_left (age_one rnum rk) ks o) = Some (scale rnum rk (cnt o k)).
+  Proof.
+    intros rnum rk ks; induction ks as [|k0 ks IH]; intros o k ND I; simpl; [destruct I|].
+    inversion ND as [|a b Nin ND']; subst.
+    destruct (eqb_spec k k0) as [E|E].
+    - subst. rewrite age_fold_notin; auto. unfold age_one.
+      apply assoc2_ord_insert_same. rewrite keys_rem2; tauto.
+    - destruct I as [I|I]; [congruence|]. rewrite IH; auto.
+      f_equal. f_equal. unfold cnt, age_one.
+      rewrite assoc2_ord_insert_other, assoc2_rem2_other; auto.
+  Qed.
+
+  Lemma keys_restamp : forall now (l : list (K * (V * Z))), keys (map (restamp now) l) = keys l.
+  Proof.
+    intros now l; unfold keys. rewrite map_map. apply map_ext. intros [k [v a]]; reflexivity.
+  Qed.
+
+  Lemma aged_keys_in : forall now (pre rest : list (K * (V * Z))) k,
+      In k (keys (rest ++ rev (map (restamp now) pre))) <-> In k (keys (pre ++ rest)).
+  Proof.
+    intros now pre rest k. rewrite !keys_app, !in_app_iff.
+    unfold keys at 2. rewrite map_rev, <- in_rev. fold (keys (map (restamp now) pre)).
+    rewrite keys_restamp. tauto.
+  Qed.
+
+  Lemma aged_keys_nodup : forall now (pre rest : list (K * (V * Z))),
+      NoDup (keys (pre ++ rest)) -> NoDup (keys (rest ++ rev (map (restamp now) pre))).
+  Proof.
+    intros now pre rest. rewrite !keys_app.
+    unfold keys at 4. rewrite map_rev. fold (keys (map (restamp now) pre)).
+    rewrite keys_restamp. rewrite !NoDup_app_iff.
+    intros (N1 & N2 & D). split; auto. split.
+    - apply NoDup_rev; auto.
+    - intros x I1 I2. apply in_rev in I2. apply (D x); auto.
+  Qed.
+
+  Lemma aged_assoc : forall now (pre rest : list (K * (V * Z))) k,
+      NoDup (keys (pre ++ rest)) ->
+      assoc k (rest ++ rev (map (restamp now) pre)) =
+      match assoc k pre with Some (v, _) => Some (v, now) | None => assoc k rest end.
+  Proof.
+    intros now pre rest k ND.
+    pose proof (aged_keys_nodup now pre rest ND) as ND'.
+    destruct (assoc k pre) as [[v a]|] eqn:EP.
+    - apply In_assoc; auto. apply in_or_app; right. apply -> in_rev.
+      apply assoc_In in EP. apply in_map_iff. exists (k, (v, a)); auto.
+    - rewrite assoc_app. destruct (assoc k rest) as [x|] eqn:ER; auto.
+      apply assoc_None_iff. unfold keys. rewrite map_rev, <- in_rev.
+      fold (keys (map (restamp now) pre)). rewrite keys_restamp.
+      apply assoc_None_iff; auto.
+  Qed.
+
+  (* ---------------- C14: dynamic aging (lfuda_cache) ---------------- *)
+  Definition ageable (s : lf K V) (now : Z) (k : K) : Prop :=
+    exists a, lf_stamp s k = Some a /\ (a + ms (lf_tick s) < now)%Z.
+
+  (* an aging point at [now] ages exactly the entries idle for strictly longer than the
+     tick: count := floor(count * ratio), idle timer := now; all others untouched; the
+     return value is the number of entries aged *)
+  Theorem lfuda_dyn_age_exact : forall t (s : lf K V) now s' n,
+      lf_inv t s -> (t <= now)%Z -> lf_dyn_age s now = (s', n) ->
+      lf_inv now s' /\
+      (forall k, lf_get s' k = lf_get s k) /\
+      (forall k, ageable s now k ->
+                 lf_stamp s' k = Some now /\ lf_count s' k = scale (lf_rnum s) (lf_rk s) (lf_count s k)) /\
+      (forall k, lf_get s k <> None -> ~ ageable s now k ->
+                 lf_stamp s' k = lf_stamp s k /\ lf_count s' k = lf_count s k) /\
+      n = length (filter (fun x => (snd (snd x) + ms (lf_tick s) <? now)%Z) (lf_ents s)).
+  Proof.
+    intros t s now s' n (Hc & Ht & Hnd & Hlen & Hndo & Hk & Hso & Hss & Hle) Hnow HD.
+    apply Forall_of_stamp in Hle; [|exact Hnd].
+    change (StronglySorted Z.le (map stampof (lf_ents s))) in Hss.
+    unfold lf_dyn_age in HD.
+    destruct (age_loop_decomp now (lf_tick s) (lf_rnum s) (lf_rk s) (lf_ents s) (lf_ord s) [] 0)
+      as (pre & rest & E & FP & HR & EL).
+    rewrite EL in HD. rewrite app_nil_r in HD. simpl in HD.
+    inversion HD; subst s' n; clear HD EL.
+    rewrite E in Hnd, Hss, Hle, Hlen, Hk.
+    assert (FR : Forall (fun x => ageP now (lf_tick s) x = false) rest).
+    { apply rest_not_aged; auto. rewrite map_app in Hss. eapply ssorted_app_r; eauto. }
+    assert (NDpre : NoDup (keys pre)).
+    { rewrite keys_app in Hnd. apply NoDup_app_iff in Hnd. tauto. }
+    assert (Fpre : Forall (fun k => In k (map snd (lf_ord s))) (keys pre)).
+    { apply Forall_forall. intros k I. apply Hk. rewrite keys_app. apply in_or_app; auto. }
+    assert (INpre : forall k v a, In (k, (v, a)) (pre ++ rest) -> (a + ms (lf_tick s) < now)%Z ->
+                                  In (k, (v, a)) pre).
+    { intros k v a I L. apply in_app_or in I. destruct I as [I|I]; auto.
+      rewrite Forall_forall in FR. specialize (FR _ I). unfold ageP, stampof in FR. simpl in FR.
+      destruct (Z.ltb_spec (a + ms (lf_tick s)) now); [discriminate|lia]. }
+    assert (INpre' : forall k v a, In (k, (v, a)) pre -> (a + ms (lf_tick s) < now)%Z).
+    { intros k v a I.
+      rewrite Forall_forall in FP. specialize (FP _ I). unfold ageP, stampof in FP. simpl in FP.
+      destruct (Z.ltb_spec (a + ms (lf_tick s)) now); [lia|discriminate]. }
+    split.
+    { unfold lf_inv; simpl.
+      split; [exact Hc|]. split; [exact Ht|].
+      split; [apply aged_keys_nodup; auto|].
+      split.
+      { rewrite app_length, rev_length, map_length. rewrite app_length in Hlen. lia. }
+      split; [apply age_fold_nodup; auto|].
+      split.
+      { intros k. rewrite aged_keys_in, age_fold_keys; auto. }
+      split; [apply age_fold_sorted; auto|].
+      split.
+      { change (StronglySorted Z.le (map stampof (rest ++ rev (map (restamp now) pre)))).
+        rewrite map_app. rewrite map_app in Hss. apply ssorted_app.
+        - eapply ssorted_app_r; eauto.
+        - apply (ssorted_const now). apply Forall_forall. intros x Hx.
+          apply in_map_iff in Hx. destruct Hx as [w [Ew Iw]]. apply in_rev in Iw.
+          apply in_map_iff in Iw. destruct Iw as [u [Eu Iu]]. subst. reflexivity.
+        - intros x y Hx Hy.
+          apply in_map_iff in Hy. destruct Hy as [w [Ew Iw]]. apply in_rev in Iw.
+          apply in_map_iff in Iw. destruct Iw as [u [Eu Iu]]. subst. unfold stampof at 1, restamp; simpl.
+          apply in_map_iff in Hx. destruct Hx as [w [Ew Iw]]. subst.
+          rewrite Forall_forall in Hle. specialize (Hle w). rewrite in_app_iff in Hle.
+          specialize (Hle (or_intror Iw)). lia. }
+      apply (stamp_of_Forall now (rest ++ rev (map (restamp now) pre))).
+      { apply Forall_app in Hle. destruct Hle as [Hl1 Hl2]. apply Forall_app; split.
+        - eapply Forall_impl; [|exact Hl2]. simpl; intros; lia.
+        - apply Forall_forall. intros x Hx. apply in_rev in Hx.
+          apply in_map_iff in Hx. destruct Hx as [u [Eu Iu]]. subst. unfold stampof, restamp; simpl. lia. } }
+    split.
+    { intros k. unfold lf_get; simpl. rewrite aged_assoc; auto. rewrite E, assoc_app.
+      destruct (assoc k pre) as [[v a]|]; auto. }
+    split.
+    { intros k (a & HS & L). unfold lf_stamp in *; simpl. rewrite lf_count_cnt; simpl.
+      rewrite aged_assoc; auto. rewrite E in HS.
+      destruct (assoc k (pre ++ rest)) as [[v a']|] eqn:EA; [|discriminate].
+      inversion HS; subst a'. apply assoc_In in EA. apply INpre in EA; auto.
+      rewrite (In_assoc _ _ _ NDpre EA). split; auto.
+      unfold cnt at 1. rewrite age_fold_in; auto.
+      apply in_map_iff. exists (k, (v, a)); auto. }
+    split.
+    { intros k HG NA. unfold lf_stamp; simpl. rewrite lf_count_cnt; simpl.
+      rewrite aged_assoc; auto. rewrite E, assoc_app.
+      destruct (assoc k pre) as [[v a]|] eqn:EP.
+      - exfalso. apply NA. exists a. apply assoc_In in EP. split; [|eapply INpre'; eauto].
+        unfold lf_stamp. rewrite E, assoc_app.
+        rewrite (In_assoc _ _ _ NDpre EP). auto.
+      - split; auto. unfold cnt at 1. rewrite age_fold_notin; auto.
+        apply assoc_None_iff; auto. }
+    { rewrite E, filter_app.
+      change (fun x : K * (V * Z) => (snd (snd x) + ms (lf_tick s) <? now)%Z) with (ageP now (lf_tick s)).
+      rewrite (filter_all _ _ FP), (filter_none _ _ FR), app_nil_r. reflexivity. }
+  Qed.
+
+  Lemma lf_inv_dyn_age : forall t (s : lf K V) now,
+      lf_inv t s -> (t <= now)%Z -> lf_inv now (fst (lf_dyn_age s now)).
+  Proof.
+    intros t s now I L. destruct (lf_dyn_age s now) as [s' n] eqn:E.
+    apply (lfuda_dyn_age_exact t s now s' n I L E).
+  Qed.
+
+  (* ---------- effects of the primitives on entries and counts ---------- *)
+  Lemma ents_access_same : forall (s : lf K V) k v now,
+      assoc k (lf_ents (lf_access s k v now)) = Some (v, now).
+  Proof.
+    intros; unfold lf_access; simpl. rewrite assoc_app, assoc_remk_same. simpl.
+    rewrite eqb_rfl; auto.
+  Qed.
+  Lemma ents_access_other : forall (s : lf K V) k v now k', k' <> k ->
+      assoc k' (lf_ents (lf_access s k v now)) = assoc k' (lf_ents s).
+  Proof.
+    intros s k v now k' N; unfold lf_access; simpl. rewrite assoc_app, assoc_remk_other; auto.
+    destruct (assoc k' (lf_ents s)); auto. simpl. rewrite eqb_neq; auto.
+  Qed.
+  Lemma cnt_access_same : forall (s : lf K V) k v now,
+      lf_count (lf_access s k v now) k = S (lf_count s k).
+  Proof.
+    intros; unfold lf_count at 1, lf_access; simpl.
+    rewrite assoc2_ord_insert_same; auto. rewrite keys_rem2; tauto.
+  Qed.
+  Lemma cnt_access_other : forall (s : lf K V) k v now k', k' <> k ->
+      lf_count (lf_access s k v now) k' = lf_count s k'.
+  Proof.
+    intros s k v now k' N; unfold lf_count, lf_access; simpl.
+    rewrite assoc2_ord_insert_other, assoc2_rem2_other; auto.
+  Qed.
+
+  Lemma ents_add_same : forall (s : lf K V) k v now, assoc k (lf_ents s) = None ->
+      assoc k (lf_ents (lf_add s k v now)) = Some (v, now).
+  Proof.
+    intros s k v now E; unfold lf_add; simpl. rewrite assoc_app, E. simpl.
+    rewrite eqb_rfl; auto.
+  Qed.
+  Lemma ents_add_other : forall (s : lf K V) k v now k', k' <> k ->
+      assoc k' (lf_ents (lf_add s k v now)) = assoc k' (lf_ents s).
+  Proof.
+    intros s k v now k' N; unfold lf_add; simpl. rewrite assoc_app.
+    destruct (assoc k' (lf_ents s)); auto. simpl. rewrite eqb_neq; auto.
+  Qed.
+  Lemma cnt_add_same : forall (s : lf K V) k v now, ~ In k (map snd (lf_ord s)) ->
+      lf_count (lf_add s k v now) k = 1.
+  Proof.
+    intros s k v now N; unfold lf_count, lf_add; simpl.
+    rewrite assoc2_ord_insert_same; auto.
+  Qed.
+  Lemma cnt_add_other : forall (s : lf K V) k v now k', k' <> k ->
+      lf_count (lf_add s k v now) k' = lf_count s k'.
+  Proof.
+    intros s k v now k' N; unfold lf_count, lf_add; simpl.
+    rewrite assoc2_ord_insert_other; auto.
+  Qed.
+
+  Lemma ents_erase_same : forall (s : lf K V) k, assoc k (lf_ents (lf_erase_key s k)) = None.
+  Proof. intros; unfold lf_erase_key; simpl. apply assoc_remk_same. Qed.
+  Lemma ents_erase_other : forall (s : lf K V) k k', k' <> k ->
+      assoc k' (lf_ents (lf_erase_key s k)) = assoc k' (lf_ents s).
+  Proof. intros; unfold lf_erase_key; simpl. apply assoc_remk_other; auto. Qed.
+  Lemma cnt_erase_other : forall (s : lf K V) k k', k' <> k ->
+      lf_count (lf_erase_key s k) k' = lf_count s k'.
+  Proof. intros; unfold lf_count, lf_erase_key; simpl. rewrite assoc2_rem2_other; auto. Qed.
+
+  (* ---------- dynamic aging: small facts ---------- *)
+  Lemma dyn_age_params : forall (s : lf K V) now,
+      let s1 := fst (lf_dyn_age s now) in
+      lf_cap s1 = lf_cap s /\ lf_tick s1 = lf_tick s /\ lf_rnum s1 = lf_rnum s /\ lf_rk s1 = lf_rk s.
+  Proof.
+    intros s now. unfold lf_dyn_age.
+    destruct (lf_age_loop now (lf_tick s) (lf_rnum s) (lf_rk s) (lf_ents s) (lf_ord s) [] 0) as [[e o] n].
+    simpl. auto.
+  Qed.
+
+  Lemma dyn_age_length : forall (s : lf K V) now,
+      length (lf_ents (fst (lf_dyn_age s now))) = length (lf_ents s).
+  Proof.
+    intros s now. unfold lf_dyn_age.
+    destruct (age_loop_decomp now (lf_tick s) (lf_rnum s) (lf_rk s) (lf_ents s) (lf_ord s) [] 0)
+      as (pre & rest & E & FP & HR & EL).
+    rewrite EL. simpl. rewrite E, !app_length, rev_length, map_length. simpl. lia.
+  Qed.
+
+  Lemma dyn_age_Forall : forall (P : K * (V * Z) -> Prop) (s : lf K V) now,
+      (forall x, P (restamp now x)) -> Forall P (lf_ents s) ->
+      Forall P (lf_ents (fst (lf_dyn_age s now))).
+  Proof.
+    intros P s now HP F. unfold lf_dyn_age.
+    destruct (age_loop_decomp now (lf_tick s) (lf_rnum s) (lf_rk s) (lf_ents s) (lf_ord s) [] 0)
+      as (pre & rest & E & FP & HR & EL).
+    rewrite EL. simpl. rewrite E in F. apply Forall_app in F. destruct F as [F1 F2].
+    apply Forall_app; split; auto. rewrite app_nil_r.
+    apply Forall_forall. intros x Hx. apply in_rev in Hx.
+    apply in_map_iff in Hx. destruct Hx as [u [Eu Iu]]. subst. auto.
+  Qed.
+
+  Lemma dyn_age_id : forall (s : lf K V) now,
+      Forall (fun x => (now <= stampof x + ms (lf_tick s))%Z) (lf_ents s) ->
+      lf_dyn_age s now = (s, 0).
+  Proof.
+    intros s now F. unfold lf_dyn_age. destruct (lf_ents s) as [|[k [v a]] ents] eqn:E; simpl.
+    - rewrite <- E. rewrite lf_with_id. auto.
+    - inversion F as [|x l Hx F']; subst. unfold stampof in Hx; simpl in Hx.
+      destruct (Z.ltb_spec (a + ms (lf_tick s)) now); [lia|].
+      rewrite app_nil_r, <- E, lf_with_id. auto.
+  Qed.
+
+  Lemma dyn_age_get : forall t (s : lf K V) now, lf_inv t s -> (t <= now)%Z ->
+      forall k, lf_get (fst (lf_dyn_age s now)) k = lf_get s k.
+  Proof.
+    intros t s now I L. destruct (lf_dyn_age s now) as [s' n] eqn:E.
+    apply (lfuda_dyn_age_exact t s now s' n I L E).
+  Qed.
+
+  (* ---------- the eviction ---------- *)
+  Lemma lf_inv_keys_ord : forall t (s : lf K V) k, lf_inv t s ->
+      (In k (keys (lf_ents s)) <-> In k (map snd (lf_ord s))).
+  Proof. intros t s k (Hc & Ht & Hnd & Hlen & Hndo & Hk & Hso & Hss & Hle). apply Hk. Qed.
+
+  Lemma lf_head_min : forall t (s : lf K V) c kv rest, lf_inv t s -> lf_ord s = (c, kv) :: rest ->
+      lf_count s kv = c /\ forall k, lf_get s k <> None -> c <= lf_count s k.
+  Proof.
+    intros t s c kv rest (Hc & Ht & Hnd & Hlen & Hndo & Hk & Hso & Hss & Hle) E.
+    unfold lf_count. rewrite E in *. simpl. rewrite eqb_rfl. split; auto.
+    intros k G. apply lf_get_keys in G. apply Hk in G. simpl in G.
+    destruct (eqb_spec k kv) as [Ek|Ek]; auto.
+    destruct G as [G|G]; [congruence|].
+    simpl in Hso. inversion Hso as [|a b Sl Fa]; subst.
+    destruct (assoc2 k rest) as [c'|] eqn:EA.
+    - apply assoc2_In in EA. rewrite Forall_forall in Fa. apply Fa.
+      apply in_map_iff. exists (c', k); auto.
+    - apply assoc2_None_iff in EA. tauto.
+  Qed.
+
+  Lemma lf_evict_facts : forall t (s : lf K V) k now c kv rest,
+      lf_inv t s -> (t <= now)%Z -> lf_size s = lf_cap s -> lf_get s k = None ->
+      lf_ord (fst (lf_dyn_age s now)) = (c, kv) :: rest ->
+      let s1 := fst (lf_dyn_age s now) in
+      let s2 := lf_erase_key s1 kv in
+      lf_inv now s1 /\ (forall k', lf_get s1 k' = lf_get s k') /\
+      lf_inv now s2 /\ ~ In k (keys (lf_ents s2)) /\ S (length (lf_ents s2)) = lf_cap s /\
+      lf_cap s2 = lf_cap s /\ lf_get s kv <> None /\ kv <> k /\
+      lf_count s1 kv = c /\ (forall k', lf_get s k' <> None -> c <= lf_count s1 k').
+  Proof.
+    intros t s k now c kv rest I L Hsz HG HO s1 s2.
+    assert (I1 : lf_inv now s1) by (apply (lf_inv_dyn_age t); auto).
+    assert (G1 : forall k', lf_get s1 k' = lf_get s k') by (apply (dyn_age_get t); auto).
+    assert (Hkv : In kv (keys (lf_ents s1))).
+    { apply (lf_inv_keys_ord now); auto. fold s1 in HO. rewrite HO. simpl; auto. }
+    assert (Hkv' : lf_get s kv <> None) by (rewrite <- G1; apply lf_get_keys; auto).
+    split; auto. split; auto.
+    split; [apply lf_inv_erase_key; auto|].
+    split.
+    { unfold s2, lf_erase_key; simpl. rewrite keys_remk. intros [Hin _].
+      apply lf_get_keys in Hin. rewrite G1 in Hin. auto. }
+    split.
+    { unfold s2, lf_erase_key; simpl. rewrite length_remk; auto.
+      - unfold s1. rewrite dyn_age_length. exact Hsz.
+      - destruct I1 as (_ & _ & ND & _). exact ND. }
+    split.
+    { unfold s2, lf_erase_key; simpl. apply (dyn_age_params s now). }
+    split; auto.
+    split; [intros Ek; subst; auto|].
+    destruct (lf_head_min now s1 c kv rest I1 HO) as [Hc Hmin].
+    split; auto. intros k' Hk'. apply Hmin. rewrite G1; auto.
+  Qed.
+
+  Lemma lf_ins_cases : forall t (s : lf K V) k v a now s' b,
+      lf_inv t s -> (t <= now)%Z -> lf_ins s k v a now = (s', b) ->
+      (lf_get s k <> None /\ a_upd a = true /\ b = true /\ s' = lf_access s k v now) \/
+      (b = false /\ s' = s /\
+       ((lf_get s k <> None /\ a_upd a = false) \/ (lf_get s k = None /\ a_ins a = false))) \/
+      (lf_get s k = None /\ a_ins a = true /\ b = true /\ lf_size s < lf_cap s /\
+       s' = lf_add s k v now) \/
+      (lf_get s k = None /\ a_ins a = true /\ b = true /\ lf_size s = lf_cap s /\
+       exists c kv rest, lf_ord (fst (lf_dyn_age s now)) = (c, kv) :: rest /\
+                         s' = lf_add (lf_erase_key (fst (lf_dyn_age s now)) kv) k v now).
+  Proof.
+    intros t s k v a now s' b I L E.
+    unfold lf_ins in E. unfold lf_get.
+    destruct (assoc k (lf_ents s)) as [[v0 a0]|] eqn:EA.
+    - destruct (a_upd a) eqn:EU; inversion E; subst.
+      + left. repeat split; auto. discriminate.
+      + right; left. repeat split; auto. left; split; auto. discriminate.
+    - destruct (a_ins a) eqn:EI; [|inversion E; subst; right; left; auto].
+      destruct (Nat.leb_spec (lf_cap s) (length (lf_ents s))) as [LE|LT].
+      + right; right; right.
+        assert (Hsz : lf_size s = lf_cap s).
+        { unfold lf_size. destruct I as (_ & _ & _ & Hlen & _). lia. }
+        assert (HG : lf_get s k = None) by (apply lf_get_None; auto).
+        split; auto. split; auto.
+        inversion E; subst. split; auto. split; auto.
+        unfold lf_prune.
+        destruct (lf_ents s) as [|x ents] eqn:EE.
+        { exfalso. destruct I as (Hc & _). try rewrite EE in LE. simpl in LE. lia. }
+        destruct (lf_ord (fst (lf_dyn_age s now))) as [|[c kv] rest] eqn:EO.
+        { exfalso.
+          assert (I1 : lf_inv now (fst (lf_dyn_age s now))) by (apply (lf_inv_dyn_age t); auto).
+          pose proof (dyn_age_length s now) as HL. try rewrite EE in HL. simpl in HL.
+          destruct (lf_ents (fst (lf_dyn_age s now))) as [|[k1 y] e1] eqn:E1; [simpl in HL; lia|].
+          assert (In k1 (keys (lf_ents (fst (lf_dyn_age s now))))) as Hin by (rewrite E1; simpl; auto).
+          apply (lf_inv_keys_ord now) in Hin; auto. rewrite EO in Hin. destruct Hin. }
+        exists c, kv, rest. split; auto.
+      + right; right; left. inversion E; subst.
+        split; [reflexivity|]. repeat split; auto.
+  Qed.
+
+  (* ---------- lookups ---------- *)
+  Lemma lf_find_use_cases : forall (s : lf K V) k pk now s' r,
+      lf_find_use s k pk now = (s', r) ->
+      (assoc k (lf_ents s) = None /\ s' = s /\ r = None) \/
+      (exists v a, assoc k (lf_ents s) = Some (v, a) /\ pk = true /\ s' = s /\
+                   r = Some (v, lf_count s k)) \/
+      (exists v a, assoc k (lf_ents s) = Some (v, a) /\ pk = false /\ s' = lf_access s k v now /\
+                   r = Some (v, S (lf_count s k))).
+  Proof.
+    intros s k pk now s' r E. unfold lf_find_use in E.
+    destruct (assoc k (lf_ents s)) as [[v a]|] eqn:EA.
+    - destruct pk; inversion E; subst.
+      + right; left. exists v, a; auto.
+      + right; right. exists v, a. rewrite cnt_access_same. auto.
+    - inversion E; subst. left; auto.
+  Qed.
+
+  Lemma lf_get_access_all : forall (s : lf K V) k v a now,
+      assoc k (lf_ents s) = Some (v, a) -> forall k', lf_get (lf_access s k v now) k' = lf_get s k'.
+  Proof.
+    intros s k v a now E k'. unfold lf_get. destruct (eqb_spec k' k) as [Ek|Ek].
+    - subst. rewrite ents_access_same, E. auto.
+    - rewrite ents_access_other; auto.
+  Qed.
+
+  Lemma lf_find_use_get : forall (s : lf K V) k pk now s' r,
+      lf_find_use s k pk now = (s', r) -> forall k', lf_get s' k' = lf_get s k'.
+  Proof.
+    intros s k pk now s' r E k'.
+    destruct (lf_find_use_cases _ _ _ _ _ _ E)
+      as [(EA & ES & ER)|[(v & a & EA & EP & ES & ER)|(v & a & EA & EP & ES & ER)]]; subst; auto.
+    eapply lf_get_access_all; eauto.
+  Qed.
+
+  Lemma lf_find_find_use : forall (s : lf K V) k pk now s' r,
+      lf_find s k pk now = (s', r) ->
+      exists r', lf_find_use s k pk now = (s', r') /\
+                 r = match r' with Some (v, _) => Some v | None => None end.
+  Proof.
+    intros s k pk now s' r E. unfold lf_find in E.
+    destruct (lf_find_use s k pk now) as [s1 r1]. inversion E; subst. eauto.
+  Qed.
+
+  Lemma no_deadk : forall (s : lf K V) now k, ~ deadk (lf_get s) now k.
+  Proof.
+    intros s now k (v & d & E & _). unfold lf_get in E.
+    destruct (assoc k (lf_ents s)) as [[v' a']|]; discriminate.
+  Qed.
+
+  Lemma livek_get : forall (s : lf K V) now k, livek (lf_get s) now k <-> lf_get s k <> None.
+  Proof.
+    intros s now k. split.
+    - intros (v & d & E & _). congruence.
+    - intros N. unfold livek. unfold lf_get in *.
+      destruct (assoc k (lf_ents s)) as [[v' a']|]; [|congruence].
+      exists v', None. auto.
+  Qed.
+
+  (* ---------- what one call does to the content ---------- *)
+  Lemma lf_get_step : forall t (s : lf K V) o now rnd s' r,
+      lf_inv t s -> (t <= now)%Z -> single o = true -> lf_step s o now rnd = (s', r) ->
+      (forall k', touches o k' = false -> lf_get s' k' = lf_get s k') \/
+      (exists ttl k v a kv, o = Insert ttl k v a /\ r = RB true /\ lf_get s k = None /\
+          lf_size s = lf_cap s /\ lf_size s' = lf_cap s /\ lf_get s' kv = None /\ kv <> k /\
+          lf_get s kv <> None /\
+          forall k', k' <> k -> k' <> kv -> lf_get s' k' = lf_get s k').
+  Proof.
+    intros t s o now rnd s' r I L Hs Hstep.
+    destruct o; simpl in Hs; try discriminate; simpl in Hstep;
+      try (inversion Hstep; subst; left; intros; reflexivity).
+    - (* Insert *)
+      destruct (lf_ins s k v a now) as [s1 b] eqn:EI. inversion Hstep; subst s1 r; clear Hstep.
+      destruct (lf_ins_cases t s k v a now s' b I L EI)
+        as [(HG & HU & HB & ES)|[(HB & ES & _)|[(HG & HI & HB & HSz & ES)|(HG & HI & HB & HSz & c & kv & rest & HO & ES)]]].
+      + left. intros k' T. simpl in T. destruct (eqb_spec k k') as [Ek|Ek]; [discriminate|].
+        subst s'. unfold lf_get. rewrite ents_access_other; auto.
+      + left. subst; auto.
+      + left. intros k' T. simpl in T. destruct (eqb_spec k k') as [Ek|Ek]; [discriminate|].
+        subst s'. unfold lf_get. rewrite ents_add_other; auto.
+      + right. exists ttl, k, v, a, kv.
+        destruct (lf_evict_facts t s k now c kv rest I L HSz HG HO)
+          as (I1 & G1 & I2 & Nk & Hlen & Hcap & Hkv & Hne & _).
+        split; auto. split; [subst b; auto|]. split; auto. split; auto.
+        split.
+        { subst s'. unfold lf_size, lf_add. simpl. rewrite app_length. simpl.
+          unfold lf_erase_key in Hlen. simpl in Hlen. lia. }
+        split.
+        { subst s'. unfold lf_get. rewrite ents_add_other; auto. rewrite ents_erase_same. auto. }
+        split; auto. split; auto.
+        intros k' N1 N2. subst s'. rewrite <- G1. unfold lf_get.
+        rewrite ents_add_other, ents_erase_other; auto.
+    - (* Erase *)
+      left. unfold lf_erase in Hstep. intros k' T. simpl in T.
+      destruct (eqb_spec k k') as [Ek|Ek]; [discriminate|].
+      destruct (assoc k (lf_ents s)); inversion Hstep; subst; auto.
+      unfold lf_get. rewrite ents_erase_other; auto.
+    - (* Find *)
+      left. intros k' _. destruct (lf_find s k peek now) as [s1 r1] eqn:EF.
+      inversion Hstep; subst. apply lf_find_find_use in EF. destruct EF as (r' & EF & _).
+      eapply lf_find_use_get; eauto.
+    - (* FindUse *)
+      left. intros k' _. destruct (lf_find_use s k peek now) as [s1 r1] eqn:EF.
+      inversion Hstep; subst. eapply lf_find_use_get; eauto.
+    - (* DynAge *)
+      left. intros k' _. destruct (lf_dyn_age s now) as [s1 n] eqn:ED.
+      inversion Hstep; subst. replace s' with (fst (lf_dyn_age s now)) by (rewrite ED; auto).
+      eapply dyn_age_get; eauto.
+  Qed.
+
+  (* ---------- invariant preservation by one call ---------- *)
+  Lemma lf_inv_step : forall t (s : lf K V) o now rnd s' r,
+      lf_inv t s -> (t <= now)%Z -> single o = true -> lf_step s o now rnd = (s', r) ->
+      lf_inv now s' /\ lf_cap s' = lf_cap s.
+  Proof.
+    intros t s o now rnd s' r I L Hs Hstep.
+    pose proof (lf_inv_mono t now s I L) as I'.
+    destruct o; simpl in Hs; try discriminate; simpl in Hstep;
+      try (inversion Hstep; subst; split; auto; fail).
+    - destruct (lf_ins s k v a now) as [s1 b] eqn:EI. inversion Hstep; subst s1 r; clear Hstep.
+      destruct (lf_ins_cases t s k v a now s' b I L EI)
+        as [(HG & HU & HB & ES)|[(HB & ES & _)|[(HG & HI & HB & HSz & ES)|(HG & HI & HB & HSz & c & kv & rest & HO & ES)]]].
+      + subst s'. split; [|reflexivity]. apply (lf_inv_access t); auto. apply lf_get_keys; auto.
+      + subst; auto.
+      + subst s'. split; [|reflexivity]. apply (lf_inv_add t); auto.
+        intros Hin. apply lf_get_keys in Hin. auto.
+      + destruct (lf_evict_facts t s k now c kv rest I L HSz HG HO)
+          as (I1 & G1 & I2 & Nk & Hlen & Hcap & Hkv & Hne & _).
+        subst s'. split; [|exact Hcap]. apply (lf_inv_add now); auto; lia.
+    - unfold lf_erase in Hstep.
+      destruct (assoc k (lf_ents s)); inversion Hstep; subst; auto.
+      split; [|reflexivity]. apply lf_inv_erase_key; auto.
+    - destruct (lf_find s k peek now) as [s1 r1] eqn:EF.
+      inversion Hstep; subst. apply lf_find_find_use in EF. destruct EF as (r' & EF & _).
+      destruct (lf_find_use_cases _ _ _ _ _ _ EF)
+        as [(EA & ES & ER)|[(v & a & EA & EP & ES & ER)|(v & a & EA & EP & ES & ER)]]; subst; auto.
+      split; [|reflexivity]. apply (lf_inv_access t); auto.
+      apply assoc_Some_keys. congruence.
+    - destruct (lf_find_use s k peek now) as [s1 r1] eqn:EF.
+      inversion Hstep; subst.
+      destruct (lf_find_use_cases _ _ _ _ _ _ EF)
+        as [(EA & ES & ER)|[(v & a & EA & EP & ES & ER)|(v & a & EA & EP & ES & ER)]]; subst; auto.
+      split; [|reflexivity]. apply (lf_inv_access t); auto.
+      apply assoc_Some_keys. congruence.
+    - destruct (lf_dyn_age s now) as [s1 n] eqn:ED.
+      inversion Hstep; subst. replace s' with (fst (lf_dyn_age s now)) by (rewrite ED; auto).
+      split; [apply (lf_inv_dyn_age t); auto|apply (dyn_age_params s now)].
+  Qed.
+
+  Lemma lf_step_Forall : forall (P : K * (V * Z) -> Prop) t (s : lf K V) o now rnd s' r,
+      (forall k v, P (k, (v, now))) ->
+      lf_inv t s -> (t <= now)%Z -> single o = true -> lf_step s o now rnd = (s', r) ->
+      Forall P (lf_ents s) -> Forall P (lf_ents s').
+  Proof.
+    intros P t s o now rnd s' r HP I L Hs Hstep F.
+    assert (FA : forall k v, Forall P (lf_ents (lf_access s k v now))).
+    { intros k v. unfold lf_access; simpl. apply Forall_app; split; [apply Forall_remk; auto|].
+      constructor; auto. }
+    destruct o; simpl in Hs; try discriminate; simpl in Hstep;
+      try (inversion Hstep; subst; auto; fail).
+    - destruct (lf_ins s k v a now) as [s1 b] eqn:EI. inversion Hstep; subst s1 r; clear Hstep.
+      destruct (lf_ins_cases t s k v a now s' b I L EI)
+        as [(HG & HU & HB & ES)|[(HB & ES & _)|[(HG & HI & HB & HSz & ES)|(HG & HI & HB & HSz & c & kv & rest & HO & ES)]]];
+        subst s'; auto.
+      + unfold lf_add; simpl. apply Forall_app; split; auto.
+      + unfold lf_add, lf_erase_key; simpl. apply Forall_app; split; auto.
+        apply Forall_remk. apply dyn_age_Forall; auto. intros x. apply HP.
+    - unfold lf_erase in Hstep.
+      destruct (assoc k (lf_ents s)); inversion Hstep; subst; auto.
+      unfold lf_erase_key; simpl. apply Forall_remk; auto.
+    - destruct (lf_find s k peek now) as [s1 r1] eqn:EF.
+      inversion Hstep; subst. apply lf_find_find_use in EF. destruct EF as (r' & EF & _).
+      destruct (lf_find_use_cases _ _ _ _ _ _ EF)
+        as [(EA & ES & ER)|[(v & a & EA & EP & ES & ER)|(v & a & EA & EP & ES & ER)]]; subst; auto.
+    - destruct (lf_find_use s k peek now) as [s1 r1] eqn:EF.
+      inversion Hstep; subst.
+      destruct (lf_find_use_cases _ _ _ _ _ _ EF)
+        as [(EA & ES & ER)|[(v & a & EA & EP & ES & ER)|(v & a & EA & EP & ES & ER)]]; subst; auto.
+    - destruct (lf_dyn_age s now) as [s1 n] eqn:ED.
+      inversion Hstep; subst. replace s' with (fst (lf_dyn_age s now)) by (rewrite ED; auto).
+      apply dyn_age_Forall; auto. intros x. apply HP.
+  Qed.
+
+  (* ---------- the models ---------- *)
   Definition lf_model : model K V := {|
     St := lf K V;
     m_step := lf_step;
@@ -60,64 +1158,243 @@ Section LfFacts.
 
   Lemma lf_inv_init : forall cap tick rnum rk t,
       1 <= cap -> (0 <= tick)%Z -> lf_inv t (lf_init cap tick rnum rk).
-  Admitted.
+  Proof.
+    intros cap tick rnum rk t Hc Ht. unfold lf_inv, lf_init; simpl.
+    split; auto. split; auto. split; [constructor|]. split; [lia|]. split; [constructor|].
+    split; [tauto|]. split; [constructor|]. split; [constructor|].
+    intros k a E. discriminate.
+  Qed.
   Lemma lfu_inv_init : forall cap t, 1 <= cap -> (0 <= t)%Z -> lfu_inv t (lfu_init cap).
-  Admitted.
+  Proof.
+    intros cap t Hc Ht. split; [apply lf_inv_init; auto; lia|]. split; auto. constructor.
+  Qed.
+
+  (* ---------- the ModelOK fields, with the clock reading of the content predicates
+     ([now']) independent of the one the step samples ---------- *)
+  Lemma lf_f_view : forall (s : lf K V) now now' k, lf_view s now k = view_of (lf_get s) now' k.
+  Proof.
+    intros. unfold lf_view, view_of, lf_get.
+    destruct (assoc k (lf_ents s)) as [[v a]|]; reflexivity.
+  Qed.
+
+  Lemma lf_f_no_appear : forall t (s : lf K V) o now rnd s' r k',
+      lf_inv t s -> (t <= now)%Z -> single o = true -> lf_step s o now rnd = (s', r) ->
+      touches o k' = false -> lf_get s' k' <> None -> lf_get s' k' = lf_get s k'.
+  Proof.
+    intros t s o now rnd s' r k' I L Hs Hstep T G.
+    destruct (lf_get_step t s o now rnd s' r I L Hs Hstep)
+      as [HF|(ttl & k & v & a & kv & EO & ER & HG & Hsz & Hsz' & Hkv & Hne & Hkv' & HF)]; auto.
+    subst o. simpl in T. destruct (eqb_spec k k') as [Ek|Ek]; [discriminate|].
+    destruct (eqb_spec k' kv) as [Ekv|Ekv]; [subst; congruence|]. apply HF; auto.
+  Qed.
+
+  Lemma lf_f_loss : forall t (s : lf K V) o now now' rnd s' r k',
+      lf_inv t s -> (t <= now)%Z -> single o = true -> lf_step s o now rnd = (s', r) ->
+      touches o k' = false -> lost_live (lf_get s) (lf_get s') now' k' ->
+      true = true /\
+      (exists ttl k v a, o = Insert ttl k v a /\ r = RB true /\ lf_get s k = None) /\
+      lf_size s = lf_cap s /\ lf_size s' = lf_cap s /\
+      (forall k'', ~ deadk (lf_get s) now' k'') /\
+      (forall k'', touches o k'' = false -> lost_live (lf_get s) (lf_get s') now' k'' -> k'' = k').
+  Proof.
+    intros t s o now now' rnd s' r k' I L Hs Hstep T [HL HN].
+    apply livek_get in HL.
+    destruct (lf_get_step t s o now rnd s' r I L Hs Hstep)
+      as [HF|(ttl & k & v & a & kv & EO & ER & HG & Hsz & Hsz' & Hkv & Hne & Hkv' & HF)].
+    - rewrite HF in HN; auto. congruence.
+    - assert (U : forall k'', touches o k'' = false -> lf_get s k'' <> None -> lf_get s' k'' = None ->
+                              k'' = kv).
+      { intros k'' T' G G'. subst o. simpl in T'.
+        destruct (eqb_spec k k'') as [Ek|Ek]; [discriminate|].
+        destruct (eqb_spec k'' kv) as [Ekv|Ekv]; auto.
+        rewrite HF in G'; auto. congruence. }
+      split; auto. split; [exists ttl, k, v, a; auto|]. split; auto. split; auto.
+      split; [intros k''; apply no_deadk|].
+      intros k'' T' [HL' HN']. apply livek_get in HL'.
+      rewrite (U k'' T' HL' HN'), (U k' T HL HN). auto.
+  Qed.
+
+  Lemma lf_f_find : forall (s : lf K V) k pk now rnd s' r,
+      lf_step s (Find k pk) now rnd = (s', r) ->
+      r = RO (lf_view s now k) /\ (lf_view s now k = None -> lf_get s' k = None).
+  Proof.
+    intros s k pk now rnd s' r Hstep. simpl in Hstep.
+    destruct (lf_find s k pk now) as [s1 r1] eqn:EF.
+    inversion Hstep; subst. apply lf_find_find_use in EF. destruct EF as (r' & EF & ER).
+    pose proof (lf_find_use_get _ _ _ _ _ _ EF k) as G. rewrite G.
+    unfold lf_view, lf_get.
+    destruct (lf_find_use_cases _ _ _ _ _ _ EF)
+      as [(EA & ES & ER')|[(v & a & EA & EP & ES & ER')|(v & a & EA & EP & ES & ER')]];
+      subst; rewrite EA; split; auto; discriminate.
+  Qed.
+
+  Lemma lf_f_find_use : forall (s : lf K V) k pk now rnd s' r,
+      lf_step s (FindUse k pk) now rnd = (s', r) ->
+      exists x, r = RU x /\
+        match x with Some (v, _) => lf_view s now k = Some v | None => lf_view s now k = None end /\
+        (lf_view s now k = None -> lf_get s' k = None).
+  Proof.
+    intros s k pk now rnd s' r Hstep. simpl in Hstep.
+    destruct (lf_find_use s k pk now) as [s1 r1] eqn:EF.
+    inversion Hstep; subst. exists r1. split; auto.
+    pose proof (lf_find_use_get _ _ _ _ _ _ EF k) as G. rewrite G.
+    unfold lf_view, lf_get.
+    destruct (lf_find_use_cases _ _ _ _ _ _ EF)
+      as [(EA & ES & ER')|[(v & a & EA & EP & ES & ER')|(v & a & EA & EP & ES & ER')]];
+      subst; rewrite EA; split; auto; discriminate.
+  Qed.
+
+  Lemma lf_f_ins : forall t (s : lf K V) ttl k v a now now' rnd s' r,
+      lf_inv t s -> (t <= now)%Z -> lf_step s (Insert ttl k v a) now rnd = (s', r) ->
+      exists b, r = RB b /\
+        (livek (lf_get s) now' k -> b = a_upd a) /\
+        (lf_get s k = None -> b = a_ins a) /\
+        (deadk (lf_get s) now' k -> (a_ins a = true -> b = true) /\
+                                    (b = true -> a_ins a = true \/ a_upd a = true)) /\
+        (b = true -> lf_get s' k = Some (v, None)) /\
+        (b = false -> keeps (lf_get s) (lf_get s') now' k) /\
+        (true = true -> b = true -> lf_get s k = None ->
+         lf_size s' = if lf_size s <? lf_cap s then S (lf_size s) else lf_cap s).
+  Proof.
+    intros t s ttl k v a now now' rnd s' r I L Hstep. simpl in Hstep.
+    destruct (lf_ins s k v a now) as [s1 b] eqn:EI. inversion Hstep; subst s1 r; clear Hstep.
+    exists b. split; auto.
+    split; [|split; [|split; [intros D; exfalso; eapply no_deadk; eauto|]]].
+    - intros HL. apply livek_get in HL.
+      destruct (lf_ins_cases t s k v a now s' b I L EI)
+        as [(HG & HU & HB & ES)|[(HB & ES & [[HG HA]|[HG HA]])|[(HG & HI & HB & HSz & ES)|(HG & HI & HB & HSz & _)]]];
+        congruence.
+    - intros HN.
+      destruct (lf_ins_cases t s k v a now s' b I L EI)
+        as [(HG & HU & HB & ES)|[(HB & ES & [[HG HA]|[HG HA]])|[(HG & HI & HB & HSz & ES)|(HG & HI & HB & HSz & _)]]];
+        congruence.
+    - destruct (lf_ins_cases t s k v a now s' b I L EI)
+        as [(HG & HU & HB & ES)|[(HB & ES & _)|[(HG & HI & HB & HSz & ES)|(HG & HI & HB & HSz & c & kv & rest & HO & ES)]]].
+      + split; [|split]; try congruence. intros _. subst s'. unfold lf_get. rewrite ents_access_same; auto.
+      + split; [|split]; try congruence. intros _. subst s'. left; auto.
+      + split; [|split]; try congruence.
+        * intros _. subst s'. unfold lf_get. rewrite ents_add_same; auto. apply lf_get_None; auto.
+        * intros _ _ _. destruct (Nat.ltb_spec (lf_size s) (lf_cap s)); [|lia].
+          subst s'. unfold lf_size, lf_add; simpl. rewrite app_length; simpl. lia.
+      + destruct (lf_evict_facts t s k now c kv rest I L HSz HG HO)
+          as (I1 & G1 & I2 & Nk & Hlen & Hcap & Hkv & Hne & _).
+        split; [|split]; try congruence.
+        * intros _. subst s'. unfold lf_get. rewrite ents_add_same; auto.
+          apply assoc_None_iff; auto.
+        * intros _ _ _. destruct (Nat.ltb_spec (lf_size s) (lf_cap s)); [lia|].
+          subst s'. unfold lf_size, lf_add; simpl. rewrite app_length; simpl.
+          unfold lf_erase_key in Hlen; simpl in Hlen. lia.
+  Qed.
+
+  Lemma lf_f_erase : forall (s : lf K V) k now now' rnd s' r,
+      lf_step s (Erase k) now rnd = (s', r) ->
+      exists b, r = RB b /\ lf_get s' k = None /\
+        (livek (lf_get s) now' k -> b = true) /\ (b = true -> lf_get s k <> None).
+  Proof.
+    intros s k now now' rnd s' r Hstep. simpl in Hstep. unfold lf_erase in Hstep.
+    destruct (assoc k (lf_ents s)) as [[v a]|] eqn:EA; inversion Hstep; subst.
+    - exists true. split; auto. split; [unfold lf_get; rewrite ents_erase_same; auto|].
+      split; auto. intros _. unfold lf_get. rewrite EA. discriminate.
+    - exists false. split; auto. split; [apply lf_get_None; auto|].
+      split; [|discriminate]. intros HL. apply livek_get in HL. exfalso; apply HL.
+      apply lf_get_None; auto.
+  Qed.
 
   Global Instance lf_ok : ModelOK lf_model.
-  Admitted.
+  Proof.
+    constructor; simpl.
+    - intros t s (_ & _ & ND & _). exact ND.
+    - intros t s k _. symmetry. apply lf_get_keys.
+    - intros t s _. unfold lf_size, keys. rewrite map_length. auto.
+    - intros t s (_ & _ & _ & Hlen & _) _. exact Hlen.
+    - apply lf_inv_mono.
+    - intros t s now k _ _. apply lf_f_view.
+    - intros t s o now rnd s' r I L Hs _ Hstep. eapply lf_inv_step; eauto.
+    - intros t s o now rnd s' r k' I L Hs _ Hstep. eapply lf_f_no_appear; eauto.
+    - intros t s o now rnd s' r k' I L Hs _ Hstep. eapply lf_f_loss; eauto.
+    - intros t s k pk now rnd s' r _ _ _ Hstep. exact (lf_f_find s k pk now rnd s' r Hstep).
+    - intros t s k pk now rnd s' r _ _ _ Hstep. exact (lf_f_find_use s k pk now rnd s' r Hstep).
+    - intros t s ttl k v a now rnd s' r I L _ Hstep. exact (lf_f_ins t s ttl k v a now now rnd s' r I L Hstep).
+    - intros t s k now rnd s' r _ _ _ Hstep. exact (lf_f_erase s k now now rnd s' r Hstep).
+    - intros t s now rnd s' r _ _ _ Hstep. inversion Hstep; auto.
+    - intros t s now rnd s' r _ _ _ Hstep. inversion Hstep; auto.
+    - reflexivity.
+    - reflexivity.
+    - reflexivity.
+    - intros t s now rnd s' r I L Hstep k.
+      destruct (lf_dyn_age s now) as [s1 n] eqn:ED.
+      inversion Hstep; subst. replace s' with (fst (lf_dyn_age s now)) by (rewrite ED; auto).
+      eapply dyn_age_get; eauto.
+    - intros t s d now rnd s' r _ _ Hstep k. inversion Hstep; auto.
+  Qed.
+
+  (* ---------- lfu_cache ---------- *)
+  Lemma lfu_step_cases : forall (s : lf K V) o now rnd,
+      (o = DynAge /\ lfu_step s o now rnd = (s, RUnsupported)) \/
+      (o <> DynAge /\ lfu_step s o now rnd = lf_step s o 0 rnd).
+  Proof.
+    intros s o now rnd; destruct o; simpl; try (right; split; [discriminate|reflexivity]).
+    left; auto.
+  Qed.
+
+  Lemma lfu_inv_step : forall t (s : lf K V) o now rnd s' r,
+      lfu_inv t s -> (t <= now)%Z -> single o = true -> lfu_step s o now rnd = (s', r) ->
+      lfu_inv now s' /\ lf_cap s' = lf_cap s.
+  Proof.
+    intros t s o now rnd s' r (I & T0 & F) L Hs Hstep.
+    destruct (lfu_step_cases s o now rnd) as [[EO E]|[NO E]]; rewrite E in Hstep.
+    - inversion Hstep; subst. split; auto. split; auto. split; [lia|auto].
+    - destruct (lf_inv_step 0 s o 0 rnd s' r I (Z.le_refl 0) Hs Hstep) as [I' C].
+      split; auto. split; auto. split; [lia|].
+      apply (lf_step_Forall (fun x => (0 <= stampof x)%Z) 0 s o 0 rnd s' r); auto; try lia.
+      intros; unfold stampof; simpl; lia.
+  Qed.
+
+  Lemma lfu_dyn_age_id : forall t (s : lf K V), lfu_inv t s -> lf_dyn_age s 0 = (s, 0).
+  Proof.
+    intros t s (I & T0 & F). apply dyn_age_id.
+    destruct I as (_ & Ht & _). eapply Forall_impl; [|exact F]. simpl. intros x Hx.
+    unfold ms. lia.
+  Qed.
+
   Global Instance lfu_ok : ModelOK lfu_model.
-  Admitted.
+  Proof.
+    constructor; simpl.
+    - intros t s ((_ & _ & ND & _) & _). exact ND.
+    - intros t s k _. symmetry. apply lf_get_keys.
+    - intros t s _. unfold lf_size, keys. rewrite map_length. auto.
+    - intros t s ((_ & _ & _ & Hlen & _) & _) _. exact Hlen.
+    - intros t t' s (I & T0 & F) L. split; auto. split; auto. lia.
+    - intros t s now k _ _. apply lf_f_view.
+    - intros t s o now rnd s' r I L Hs _ Hstep. eapply lfu_inv_step; eauto.
+    - intros t s o now rnd s' r k' (I & T0 & F) L Hs _ Hstep T G.
+      destruct (lfu_step_cases s o now rnd) as [[EO E]|[NO E]]; rewrite E in Hstep.
+      + inversion Hstep; subst; auto.
+      + exact (lf_f_no_appear 0 s o 0 rnd s' r k' I (Z.le_refl 0) Hs Hstep T G).
+    - intros t s o now rnd s' r k' (I & T0 & F) L Hs _ Hstep T LL.
+      destruct (lfu_step_cases s o now rnd) as [[EO E]|[NO E]]; rewrite E in Hstep.
+      + inversion Hstep; subst. destruct LL as [HL HN]. apply livek_get in HL. congruence.
+      + exact (lf_f_loss 0 s o 0 now rnd s' r k' I (Z.le_refl 0) Hs Hstep T LL).
+    - intros t s k pk now rnd s' r _ _ _ Hstep. exact (lf_f_find s k pk 0 rnd s' r Hstep).
+    - intros t s k pk now rnd s' r _ _ _ Hstep. exact (lf_f_find_use s k pk 0 rnd s' r Hstep).
+    - intros t s ttl k v a now rnd s' r (I & T0 & F) L _ Hstep.
+      exact (lf_f_ins 0 s ttl k v a 0 now rnd s' r I (Z.le_refl 0) Hstep).
+    - intros t s k now rnd s' r _ _ _ Hstep. exact (lf_f_erase s k 0 now rnd s' r Hstep).
+    - intros t s now rnd s' r _ _ _ Hstep. inversion Hstep; auto.
+    - intros t s now rnd s' r _ _ _ Hstep. inversion Hstep; auto.
+    - reflexivity.
+    - reflexivity.
+    - reflexivity.
+    - intros t s now rnd s' r _ _ Hstep k. inversion Hstep; auto.
+    - intros t s d now rnd s' r _ _ Hstep k. inversion Hstep; auto.
+  Qed.
 
-  (* ---------------- C11: use counts and LFU victims (lfu_cache) ---------------- *)
-
-  (* the stored count of every resident is the use count defined on the history *)
-  Theorem lfu_count_is_use_count : forall cap tr t (s : lf K V),
-      1 <= cap -> wruns lfu_model 0 (lfu_init cap) tr t s ->
-      forall k, lf_get s k <> None -> lf_count s k = use_count lfu_model k tr.
-  Admitted.
-
-  (* find_with_use_count reports the value and the count, including the current access
-     when not peeking *)
-  Theorem lfu_find_use_reports_count : forall t (s : lf K V) k pk now rnd s' v c,
-      lfu_inv t s -> lfu_step s (FindUse k pk) now rnd = (s', RU (Some (v, c))) ->
-      lf_view s now k = Some v /\ c = lf_count s' k /\
-      c = (if pk then lf_count s k else S (lf_count s k)).
-  Admitted.
-
-  (* the victim of an evicting insert has a minimal use count among the residents *)
-  Theorem lfu_victim_min_count : forall t (s : lf K V) ttl k v a now rnd s',
-      lfu_inv t s -> lf_size s = lf_cap s -> lf_get s k = None ->
-      lfu_step s (Insert ttl k v a) now rnd = (s', RB true) ->
-      exists kv, kv <> k /\ lf_get s kv <> None /\ lf_get s' kv = None /\
-        (forall k', k' <> k -> k' <> kv -> lf_get s' k' = lf_get s k' /\ lf_count s' k' = lf_count s k') /\
-        (forall k', lf_get s k' <> None -> lf_count s kv <= lf_count s k') /\
-        lf_count s' k = 1.
-  Admitted.
-
-  (* ---------------- C14: dynamic aging (lfuda_cache) ---------------- *)
-
-  Definition ageable (s : lf K V) (now : Z) (k : K) : Prop :=
-    exists a, lf_stamp s k = Some a /\ (a + ms (lf_tick s) < now)%Z.
-
-  (* an aging point at [now] ages exactly the entries idle for strictly longer than the
-     tick: count := floor(count * ratio), idle timer := now; all others untouched; the
-     return value is the number of entries aged *)
-  Theorem lfuda_dyn_age_exact : forall t (s : lf K V) now s' n,
-      lf_inv t s -> (t <= now)%Z -> lf_dyn_age s now = (s', n) ->
-      lf_inv now s' /\
-      (forall k, lf_get s' k = lf_get s k) /\
-      (forall k, ageable s now k ->
-                 lf_stamp s' k = Some now /\ lf_count s' k = scale (lf_rnum s) (lf_rk s) (lf_count s k)) /\
-      (forall k, lf_get s k <> None -> ~ ageable s now k ->
-                 lf_stamp s' k = lf_stamp s k /\ lf_count s' k = lf_count s k) /\
-      n = length (filter (fun x => (snd (snd x) + ms (lf_tick s) <? now)%Z) (lf_ents s)).
-  Admitted.
+  (* ---------------- C14, continued ---------------- *)
 
   (* dynamically_age() is that aging point *)
   Theorem lfuda_dynage_op : forall (s : lf K V) now rnd,
       lf_step s DynAge now rnd = (fst (lf_dyn_age s now), RN (snd (lf_dyn_age s now))).
-  Admitted.
+  Proof. intros s now rnd. simpl. destruct (lf_dyn_age s now); reflexivity. Qed.
 
   (* an evicting insert ages first, then removes an entry of minimal count *)
   Theorem lfuda_evicting_insert : forall t (s : lf K V) ttl k v a now rnd s',
@@ -130,7 +1407,27 @@ Section LfFacts.
                     lf_stamp s' k' = lf_stamp s1 k') /\
         (forall k', lf_get s k' <> None -> lf_count s1 kv <= lf_count s1 k') /\
         lf_count s' k = 1 /\ lf_stamp s' k = Some now.
-  Admitted.
+  Proof.
+    intros t s ttl k v a now rnd s' I L Hsz HG Hstep s1. simpl in Hstep.
+    destruct (lf_ins s k v a now) as [s0 b] eqn:EI. inversion Hstep; subst s0 b; clear Hstep.
+    destruct (lf_ins_cases t s k v a now s' true I L EI)
+      as [(HG' & _)|[(HB & _)|[(_ & _ & _ & HSz & _)|(_ & HI & _ & _ & c & kv & rest & HO & ES)]]];
+      [congruence|discriminate|lia|].
+    destruct (lf_evict_facts t s k now c kv rest I L Hsz HG HO)
+      as (I1 & G1 & I2 & Nk & Hlen & Hcap & Hkv & Hne & Hc & Hmin).
+    fold s1 in ES, I1, G1, I2, Nk, Hc, Hmin.
+    exists kv. split; auto. split; auto.
+    split.
+    { subst s'. unfold lf_get. rewrite ents_add_other; auto. rewrite ents_erase_same. auto. }
+    split.
+    { intros k' N1 N2. subst s'. rewrite <- G1. unfold lf_get, lf_stamp.
+      rewrite ents_add_other, ents_erase_other, cnt_add_other, cnt_erase_other; auto. }
+    split.
+    { intros k' Hk'. rewrite Hc. auto. }
+    split.
+    { subst s'. apply cnt_add_same. intros Hin. apply Nk. apply (lf_inv_keys_ord now); auto. }
+    { subst s'. unfold lf_stamp. rewrite ents_add_same; auto. apply assoc_None_iff; auto. }
+  Qed.
 
   (* a use (successful update, non-peek hit) adds one to the count and restarts the idle
      timer; it touches no other entry *)
@@ -140,7 +1437,13 @@ Section LfFacts.
       lf_count s' k = S (lf_count s k) /\ lf_stamp s' k = Some now /\
       (forall k', k' <> k -> lf_count s' k' = lf_count s k' /\ lf_stamp s' k' = lf_stamp s k' /\
                              lf_get s' k' = lf_get s k').
-  Admitted.
+  Proof.
+    intros t s k v now I L G s'. subst s'.
+    split; [apply cnt_access_same|].
+    split; [unfold lf_stamp; rewrite ents_access_same; auto|].
+    intros k' N. rewrite cnt_access_other; auto. unfold lf_stamp, lf_get.
+    rewrite ents_access_other; auto.
+  Qed.
 
   (* an insert into a non-full cache, an erase, a peek, a miss, a rejected insert change
      neither count nor idle timer of any other entry (and do not age) *)
@@ -150,20 +1453,226 @@ Section LfFacts.
       (forall ttl v a, o <> Insert ttl k' v a) -> (forall pk, o <> Find k' pk) -> (forall pk, o <> FindUse k' pk) ->
       lf_get s' k' <> None ->
       lf_count s' k' = lf_count s k' /\ lf_stamp s' k' = lf_stamp s k'.
-  Admitted.
+  Proof.
+    intros t s o now rnd s' r k' I L Hs Hstep ND Hroom NI NF NFU G.
+    destruct o; simpl in Hs; try discriminate; simpl in Hstep;
+      try (inversion Hstep; subst; auto; fail).
+    - assert (Nk : k' <> k) by (intros E; subst; apply (NI ttl v a); reflexivity).
+      destruct (lf_ins s k v a now) as [s0 b] eqn:EI. inversion Hstep; subst s0 r; clear Hstep.
+      destruct (lf_ins_cases t s k v a now s' b I L EI)
+        as [(HG & HU & HB & ES)|[(HB & ES & _)|[(HG & HI & HB & HSz & ES)|(HG & HI & HB & HSz & _)]]].
+      + subst s'. rewrite cnt_access_other; auto. unfold lf_stamp. rewrite ents_access_other; auto.
+      + subst s'; auto.
+      + subst s'. rewrite cnt_add_other; auto. unfold lf_stamp. rewrite ents_add_other; auto.
+      + specialize (Hroom ttl k v a eq_refl HG). lia.
+    - unfold lf_erase in Hstep.
+      destruct (assoc k (lf_ents s)); inversion Hstep; subst; auto.
+      destruct (eqb_spec k' k) as [E|E].
+      + subst. exfalso. apply G. unfold lf_get. rewrite ents_erase_same. auto.
+      + rewrite cnt_erase_other; auto. unfold lf_stamp. rewrite ents_erase_other; auto.
+    - assert (Nk : k' <> k) by (intros E; subst; apply (NF peek); reflexivity).
+      destruct (lf_find s k peek now) as [s1 r1] eqn:EF.
+      inversion Hstep; subst. apply lf_find_find_use in EF. destruct EF as (r' & EF & _).
+      destruct (lf_find_use_cases _ _ _ _ _ _ EF)
+        as [(EA & ES & ER)|[(v & a & EA & EP & ES & ER)|(v & a & EA & EP & ES & ER)]]; subst; auto.
+      rewrite cnt_access_other; auto. unfold lf_stamp. rewrite ents_access_other; auto.
+    - assert (Nk : k' <> k) by (intros E; subst; apply (NFU peek); reflexivity).
+      destruct (lf_find_use s k peek now) as [s1 r1] eqn:EF.
+      inversion Hstep; subst.
+      destruct (lf_find_use_cases _ _ _ _ _ _ EF)
+        as [(EA & ES & ER)|[(v & a & EA & EP & ES & ER)|(v & a & EA & EP & ES & ER)]]; subst; auto.
+      rewrite cnt_access_other; auto. unfold lf_stamp. rewrite ents_access_other; auto.
+    - exfalso; apply ND; reflexivity.
+  Qed.
+
+  (* ---------------- C11: use counts and LFU victims (lfu_cache) ---------------- *)
+
+  (* find_with_use_count reports the value and the count, including the current access
+     when not peeking *)
+  Theorem lfu_find_use_reports_count : forall t (s : lf K V) k pk now rnd s' v c,
+      lfu_inv t s -> lfu_step s (FindUse k pk) now rnd = (s', RU (Some (v, c))) ->
+      lf_view s now k = Some v /\ c = lf_count s' k /\
+      c = (if pk then lf_count s k else S (lf_count s k)).
+  Proof.
+    intros t s k pk now rnd s' v c IU Hstep. simpl in Hstep.
+    destruct (lf_find_use s k pk 0) as [s1 r1] eqn:EF. inversion Hstep; subst s1 r1; clear Hstep.
+    unfold lf_view.
+    destruct (lf_find_use_cases _ _ _ _ _ _ EF)
+      as [(EA & ES & ER)|[(v0 & a & EA & EP & ES & ER)|(v0 & a & EA & EP & ES & ER)]];
+      [discriminate| |]; inversion ER; subst; rewrite EA; repeat split; auto.
+    rewrite cnt_access_same; auto.
+  Qed.
+
+  (* the victim of an evicting insert has a minimal use count among the residents *)
+  Theorem lfu_victim_min_count : forall t (s : lf K V) ttl k v a now rnd s',
+      lfu_inv t s -> lf_size s = lf_cap s -> lf_get s k = None ->
+      lfu_step s (Insert ttl k v a) now rnd = (s', RB true) ->
+      exists kv, kv <> k /\ lf_get s kv <> None /\ lf_get s' kv = None /\
+        (forall k', k' <> k -> k' <> kv -> lf_get s' k' = lf_get s k' /\ lf_count s' k' = lf_count s k') /\
+        (forall k', lf_get s k' <> None -> lf_count s kv <= lf_count s k') /\
+        lf_count s' k = 1.
+  Proof.
+    intros t s ttl k v a now rnd s' IU Hsz HG Hstep.
+    pose proof (lfu_dyn_age_id t s IU) as ED. destruct IU as (I & T0 & F).
+    change (lf_step s (Insert ttl k v a) 0 rnd = (s', RB true)) in Hstep.
+    pose proof (lfuda_evicting_insert 0 s ttl k v a 0 rnd s' I (Z.le_refl 0) Hsz HG Hstep) as HE.
+    cbv zeta in HE. rewrite ED in HE. cbn [fst] in HE.
+    destruct HE as (kv & H1 & H2 & H3 & H4 & H5 & H6 & H7).
+    exists kv. split; auto. split; auto. split; auto. split; [|split; auto].
+    intros k' N1 N2. destruct (H4 k' N1 N2) as (A & B & C). auto.
+  Qed.
+
+  Lemma creates_ins : forall k (s : lf K V) ttl k0 v a now rnd b,
+      creates lfu_model k (s, {| e_op := Insert ttl k0 v a; e_now := now; e_rnd := rnd |}, RB b) =
+      b && (eqb k0 k && match lf_get s k with None => true | Some _ => false end).
+  Proof. intros; destruct b; reflexivity. Qed.
+  Lemma uses_ins : forall k (s : lf K V) ttl k0 v a now rnd b,
+      uses lfu_model k (s, {| e_op := Insert ttl k0 v a; e_now := now; e_rnd := rnd |}, RB b) =
+      b && eqb k0 k.
+  Proof. intros; destruct b; reflexivity. Qed.
+  Lemma uses_find : forall k (s : lf K V) k0 pk now rnd x,
+      uses lfu_model k (s, {| e_op := Find k0 pk; e_now := now; e_rnd := rnd |}, RO x) =
+      negb pk && match x with Some _ => eqb k0 k | None => false end.
+  Proof. intros; destruct pk; destruct x; reflexivity. Qed.
+  Lemma uses_find_use : forall k (s : lf K V) k0 pk now rnd x,
+      uses lfu_model k (s, {| e_op := FindUse k0 pk; e_now := now; e_rnd := rnd |}, RU x) =
+      negb pk && match x with Some _ => eqb k0 k | None => false end.
+  Proof. intros; destruct pk; destruct x; reflexivity. Qed.
+
+  Lemma lfu_count_step : forall t (s : lf K V) o now rnd s' r k,
+      lfu_inv t s -> single o = true -> lfu_step s o now rnd = (s', r) -> lf_get s' k <> None ->
+      if creates lfu_model k (s, {| e_op := o; e_now := now; e_rnd := rnd |}, r)
+      then lf_count s' k = 1
+      else (lf_get s k <> None /\
+            lf_count s' k =
+            if uses lfu_model k (s, {| e_op := o; e_now := now; e_rnd := rnd |}, r)
+            then S (lf_count s k) else lf_count s k).
+  Proof.
+    intros t s o now rnd s' r k IU Hs Hstep G.
+    pose proof IU as (I & T0 & F). pose proof Hstep as Hstep0.
+    destruct o; simpl in Hs; try discriminate; simpl in Hstep;
+      try (inversion Hstep; subst; simpl; split; auto; fail).
+    - (* Insert *)
+      destruct (lf_ins s k0 v a 0) as [s0 b] eqn:EI. inversion Hstep; subst s0 r; clear Hstep.
+      rewrite creates_ins, uses_ins.
+      destruct (lf_ins_cases 0 s k0 v a 0 s' b I (Z.le_refl 0) EI)
+        as [(HG & HU & HB & ES)|[(HB & ES & _)|[(HG & HI & HB & HSz & ES)|(HG & HI & HB & HSz & _)]]].
+      + subst b s'. destruct (eqb_spec k0 k) as [E|E]; simpl.
+        * subst k0. destruct (lf_get s k) eqn:EG; [|congruence].
+          split; [discriminate|apply cnt_access_same].
+        * unfold lf_get in G. rewrite ents_access_other in G; auto.
+          split; auto. apply cnt_access_other; auto.
+      + subst b s'. simpl. auto.
+      + subst b s'. destruct (eqb_spec k0 k) as [E|E]; simpl.
+        * subst k0. rewrite HG. apply cnt_add_same.
+          intros Hin. apply (lf_inv_keys_ord 0) in Hin; auto. apply lf_get_keys in Hin. auto.
+        * unfold lf_get in G. rewrite ents_add_other in G; auto.
+          split; auto. apply cnt_add_other; auto.
+      + subst b.
+        destruct (lfu_victim_min_count t s ttl k0 v a now rnd s' IU HSz HG Hstep0)
+          as (kv & H1 & H2 & H3 & H4 & H5 & H6).
+        destruct (eqb_spec k0 k) as [E|E]; simpl.
+        * subst k0. rewrite HG. auto.
+        * destruct (eqb_spec k kv) as [E'|E']; [subst; congruence|].
+          destruct (H4 k) as [A B]; auto. rewrite <- A. auto.
+    - (* Erase *)
+      unfold lf_erase in Hstep.
+      destruct (assoc k0 (lf_ents s)); inversion Hstep; subst; simpl; [|split; auto].
+      destruct (eqb_spec k k0) as [E|E].
+      + subst. exfalso. apply G. unfold lf_get. rewrite ents_erase_same. auto.
+      + unfold lf_get in G. rewrite ents_erase_other in G; auto.
+        split; auto. apply cnt_erase_other; auto.
+    - (* Find *)
+      destruct (lf_find s k0 peek 0) as [s1 r1] eqn:EF.
+      inversion Hstep; subst s1 r; clear Hstep.
+      apply lf_find_find_use in EF. destruct EF as (r' & EF & ER).
+      rewrite uses_find. change (creates lfu_model k (s, {| e_op := Find k0 peek; e_now := now; e_rnd := rnd |}, RO r1)) with false.
+      cbv iota.
+      destruct (lf_find_use_cases _ _ _ _ _ _ EF)
+        as [(EA & ES & ER')|[(v & a & EA & EP & ES & ER')|(v & a & EA & EP & ES & ER')]]; subst.
+      * destruct peek; simpl; auto.
+      * simpl; auto.
+      * simpl. destruct (eqb_spec k0 k) as [E|E].
+        -- subst k0. split; [unfold lf_get; rewrite EA; discriminate|apply cnt_access_same].
+        -- unfold lf_get in G. rewrite ents_access_other in G; auto.
+           split; auto. apply cnt_access_other; auto.
+    - (* FindUse *)
+      destruct (lf_find_use s k0 peek 0) as [s1 r1] eqn:EF.
+      inversion Hstep; subst s1 r; clear Hstep.
+      rewrite uses_find_use. change (creates lfu_model k (s, {| e_op := FindUse k0 peek; e_now := now; e_rnd := rnd |}, RU r1)) with false.
+      cbv iota.
+      destruct (lf_find_use_cases _ _ _ _ _ _ EF)
+        as [(EA & ES & ER')|[(v & a & EA & EP & ES & ER')|(v & a & EA & EP & ES & ER')]]; subst.
+      * destruct peek; simpl; auto.
+      * simpl; auto.
+      * simpl. destruct (eqb_spec k0 k) as [E|E].
+        -- subst k0. split; [unfold lf_get; rewrite EA; discriminate|apply cnt_access_same].
+        -- unfold lf_get in G. rewrite ents_access_other in G; auto.
+           split; auto. apply cnt_access_other; auto.
+  Qed.
+
+  Lemma lfu_wruns_inv : forall cap tr t (s : lf K V),
+      1 <= cap -> wruns lfu_model 0 (lfu_init cap) tr t s -> lfu_inv t s.
+  Proof.
+    intros cap tr t s Hc W. induction W as [|tr t s e s' r W IH Hs L _ Hstep].
+    - apply lfu_inv_init; auto; lia.
+    - simpl in Hstep. eapply lfu_inv_step; eauto.
+  Qed.
+
+  Lemma use_count_snoc : forall (M : model K V) k tr x,
+      use_count M k (tr ++ [x]) =
+      if creates M k x then 1 else if uses M k x then S (use_count M k tr) else use_count M k tr.
+  Proof. intros. unfold use_count. rewrite fold_left_app. reflexivity. Qed.
+
+  (* the stored count of every resident is the use count defined on the history *)
+  Theorem lfu_count_is_use_count : forall cap tr t (s : lf K V),
+      1 <= cap -> wruns lfu_model 0 (lfu_init cap) tr t s ->
+      forall k, lf_get s k <> None -> lf_count s k = use_count lfu_model k tr.
+  Proof.
+    intros cap tr t s Hc W. induction W as [|tr t s e s' r W IH Hs L _ Hstep]; intros k G.
+    - exfalso; apply G; reflexivity.
+    - pose proof (lfu_wruns_inv cap tr t s Hc W) as IU.
+      rewrite use_count_snoc. destruct e as [o now rnd]. simpl in Hs, L, Hstep.
+      pose proof (lfu_count_step t s o now rnd s' r k IU Hs Hstep G) as CS.
+      match goal with
+      | |- _ = (if ?c then _ else if ?u then _ else _) => set (cb := c); set (ub := u)
+      end.
+      change (if cb then lf_count s' k = 1
+              else (lf_get s k <> None /\
+                    lf_count s' k = if ub then S (lf_count s k) else lf_count s k)) in CS.
+      destruct cb; auto. destruct CS as [G0 CS]. rewrite CS.
+      destruct ub; rewrite (IH k G0); auto.
+  Qed.
 
   (* ---------------- C19 ---------------- *)
   Lemma lf_peek_noop : forall (s : lf K V) k now rnd, fst (lf_step s (Find k true) now rnd) = s.
-  Admitted.
+  Proof.
+    intros. simpl. unfold lf_find, lf_find_use.
+    destruct (assoc k (lf_ents s)) as [[v a]|]; reflexivity.
+  Qed.
   Lemma lf_peek_use_noop : forall (s : lf K V) k now rnd, fst (lf_step s (FindUse k true) now rnd) = s.
-  Admitted.
+  Proof.
+    intros. simpl. unfold lf_find_use.
+    destruct (assoc k (lf_ents s)) as [[v a]|]; reflexivity.
+  Qed.
   Lemma lf_miss_noop : forall (s : lf K V) k pk now rnd,
       lf_get s k = None -> lf_step s (Find k pk) now rnd = (s, RO None).
-  Admitted.
+  Proof.
+    intros s k pk now rnd G. apply lf_get_None in G. simpl. unfold lf_find, lf_find_use.
+    rewrite G. reflexivity.
+  Qed.
   Lemma lf_rejected_insert_noop : forall (s : lf K V) ttl k v a now rnd s',
       lf_step s (Insert ttl k v a) now rnd = (s', RB false) -> s' = s.
-  Admitted.
+  Proof.
+    intros s ttl k v a now rnd s' E. simpl in E. unfold lf_ins in E.
+    destruct (assoc k (lf_ents s)).
+    - destruct (a_upd a); inversion E; auto.
+    - destruct (a_ins a); inversion E; auto.
+  Qed.
   Lemma lf_erase_absent_noop : forall (s : lf K V) k now rnd s',
       lf_step s (Erase k) now rnd = (s', RB false) -> s' = s.
-  Admitted.
+  Proof.
+    intros s k now rnd s' E. simpl in E. unfold lf_erase in E.
+    destruct (assoc k (lf_ents s)); inversion E; auto.
+  Qed.
 End LfFacts.
